@@ -10,6 +10,7 @@
 #include <ImathSphere.h>
 #include <ImathVecAlgo.h>
 #include <ImathBox.h>
+#include <cfenv>
 
 using namespace orc;
 using namespace qg;
@@ -2082,6 +2083,7 @@ enum
     FLL_DIST_CHECKED,
     FLL_DIST_NEARPAR_CHECKED
 };
+template <class T> static void far_lines_check (vp::Ctx& c, const char* tn, const Line3<T>& l1, const Line3<T>& l2);
 template <class T> static void far_lines_case (vp::Ctx& c, const char* tn)
 {
     typedef Vec3<T> V;
@@ -2206,7 +2208,13 @@ template <class T> static void far_lines_case (vp::Ctx& c, const char* tn)
     if (!(l2.dir.length2 () > 0)) l2.dir = V (0, 1, 0);
     VP_NOTE (c, tn << " class=" << cls << " line1=" << vs (l1.pos) << "+t" << vs (l1.dir) << " line2=" << vs (l2.pos) << "+t" << vs (l2.dir) << far_note (f));
     c.nt (!f.none);
-
+    far_lines_check<T> (c, tn, l1, l2);
+}
+// the checks of far_lines_case (shared with ratio_lines_*): no draws in here
+template <class T> static void far_lines_check (vp::Ctx& c, const char* tn, const Line3<T>& l1, const Line3<T>& l2)
+{
+    typedef Vec3<T> V;
+    const quad      eps = EPS<T> ();
     Q3   P1 = q3 (l1.pos), D1 = q3 (l1.dir), P2 = q3 (l2.pos), D2 = q3 (l2.dir), W = P1 - P2;
     quad A = dot (D1, D1), B = dot (D1, D2), C = dot (D2, D2), D = dot (D1, W), E = dot (D2, W);
     quad den = A * C - B * B;
@@ -3014,5 +3022,1762 @@ VP_REQUIRE_LABELS (vec_near_f, C15_VN_LABELS)
 VP_RANDOM (vec_near_d, 200000, 2000000, C15_VN_RULE) { vec_near_dispatch<double> (c); }
 VP_LABELS (vec_near_d, C15_VN_LABELS)
 VP_REQUIRE_LABELS (vec_near_d, C15_VN_LABELS)
+
+// =====================================================================================
+// 11. "Component ratios": directions / normals with one or two components smaller than the largest by a factor
+//     2^-k, k = 1 .. digits + 10 (far below eps relative, but non-zero), every sign pattern, signed zeros, mantissas
+//     1 / four bits / full.  For every function of the property that takes a direction or a normal.  The bounds
+//     are the conditioning-scaled ones of sections 1 - 6 (absolute errors of a few eps on unit vectors): a tilt of
+//     6 eps (1.3e-15 rad in double, 7e-7 in float) is visible, so a shortcut that flushes a relatively small but
+//     non-zero component to 0 is seen for every k <= digits - 4; the larger k exercise the paths where the
+//     component is absorbed by the rounding of the length (results must still be within the same bounds).
+// =====================================================================================
+struct RatioVec
+{
+    double v[4];       // T values
+    int    dom;        // index of the largest component
+    int    kmin, kmax; // exponents of the small components (relative to the largest)
+    int    ntiny;
+    bool   has_zero;
+};
+template <class T> static RatioVec gen_ratio (vp::Src& s, int N)
+{
+    RatioVec r;
+    for (int i = 0; i < 4; ++i)
+        r.v[i] = 0;
+    int dom    = (int) s.below ((uint64_t) N);
+    int forced = (int) s.below ((uint64_t) (N - 1)); // which of the other components is small in any case
+    int e      = (int) s.range (-2, 2);
+    int mb     = (int) s.below (3);
+    r.dom      = dom;
+    r.kmin     = 1000;
+    r.kmax     = 0;
+    r.ntiny    = 0;
+    r.has_zero = false;
+    int oi     = 0;
+    for (int i = 0; i < N; ++i)
+    {
+        int    mode = (int) s.below (4);
+        int    k    = (int) s.range (1, FInfo<T>::mant + 10);
+        double u    = s.unit ();
+        int    u4   = (int) s.below (16);
+        bool   neg  = s.coin ();
+        double m    = mb == 0 ? 1.0 : mb == 1 ? 1.0 + u4 / 16.0 : 1.0 + u;
+        double val;
+        if (i == dom)
+            val = std::ldexp (m, e);
+        else
+        {
+            bool tiny = oi == forced || mode <= 1;
+            ++oi;
+            if (tiny)
+            {
+                val = std::ldexp (m, e - k);
+                r.ntiny++;
+                r.kmin = std::min (r.kmin, k);
+                r.kmax = std::max (r.kmax, k);
+            }
+            else if (mode == 2)
+            {
+                val        = 0;
+                r.has_zero = true;
+            }
+            else
+                val = std::ldexp (m, e) * (0.25 + 0.5 * u);
+        }
+        if (neg) val = -val;
+        r.v[i] = (double) (T) val;
+    }
+    return r;
+}
+enum
+{
+    RQ_TINY_ONE,
+    RQ_TINY_TWO_OR_MORE,
+    RQ_ZERO_COMP,
+    RQ_K_VISIBLE,
+    RQ_K_BELOW_EPS,
+    RQ_NBASE
+};
+#define C15_RQ_BASE "one_small_component", "two_or_more_small_components", "a_zero_component", "ratio_above_64eps(flush_visible)", "ratio_below_eps"
+template <class T> static inline void ratio_labels (vp::Ctx& c, const RatioVec& r, int base = 0)
+{
+    c.label (base + (r.ntiny == 1 ? RQ_TINY_ONE : RQ_TINY_TWO_OR_MORE));
+    if (r.has_zero) c.label (base + RQ_ZERO_COMP);
+    if (r.kmin <= FInfo<T>::mant - 7) c.label (base + RQ_K_VISIBLE);
+    if (r.kmax > FInfo<T>::mant) c.label (base + RQ_K_BELOW_EPS);
+}
+template <class T> static inline Vec3<T> ratio3 (const RatioVec& r) { return Vec3<T> ((T) r.v[0], (T) r.v[1], (T) r.v[2]); }
+// a point: the origin, on the integer lattice, or generic
+template <class T> static inline Vec3<T> ratio_pt (vp::Src& s)
+{
+    int     pc = (int) s.below (3);
+    int     x  = (int) s.range (-4, 4);
+    int     y  = (int) s.range (-4, 4);
+    int     z  = (int) s.range (-4, 4);
+    Vec3<T> g  = seq_pt<T> (s);
+    return pc == 0 ? Vec3<T> (0, 0, 0) : pc == 1 ? Vec3<T> ((T) x, (T) y, (T) z) : g;
+}
+
+// ---- 11a. Line3 set / closestPointTo(point) / distanceTo(point) / rotatePoint; Plane3 set overloads, distanceTo,
+//      reflectPoint, reflectVector, intersect / intersectT
+enum
+{
+    RQ_LINE_TWO_POINTS = RQ_NBASE,
+    RQ_LINE_DIR_ASSIGNED,
+    RQ_PL_THREE_POINTS,
+    RQ_PL_POINT_NORMAL,
+    RQ_PL_NORMAL_DIST,
+    RQ_HIT_STRONG,
+    RQ_HIT_GRAZING,
+    RQ_HIT_PARALLEL_FALSE,
+    RQ_SAME_DOMINANT,
+    RQ_DIFFERENT_DOMINANT
+};
+template <class T> static void ratio_prims_case (vp::Ctx& c, const char* tn)
+{
+    typedef Vec3<T> V;
+    vp::Src&        s   = c.s;
+    const quad      eps = EPS<T> ();
+    RatioVec        rd  = gen_ratio<T> (s, 3);
+    V               d   = ratio3<T> (rd);
+    ratio_labels<T> (c, rd);
+    c.nt (true);
+    // ---- Line3 from two points p0, p0 + d 2^se
+    int pc = (int) s.below (4);
+    int m  = (int) s.range (-3, 3);
+    V   gp = ratio_pt<T> (s);
+    int se = (int) s.range (-2, 2);
+    V   p0 = pc == 3 ? rnd<T> (q3 (d) * (quad) m) : gp; // a point of the line through 0, or see ratio_pt
+    V   p1 = rnd<T> (q3 (p0) + q3 (d) * (quad) std::ldexp (1.0, se));
+    if (p1 == p0) p1[rd.dom] += 1;
+    Line3<T> l (p0, p1), l2;
+    l2.pos = V (9, 9, 9);
+    l2.dir = V (9, 9, 9);
+    l2.set (p0, p1);
+    VP_NOTE (c, tn << " d=" << vs (d) << " p0=" << vs (p0) << " p1=" << vs (p1));
+    VP_REQUIRE (c, same3 (l.pos, l2.pos) && same3 (l.dir, l2.dir), "line-ctor-vs-set", tn << " Line3(p0,p1) != set(p0,p1): dir " << vs (l.dir) << " vs " << vs (l2.dir));
+    VP_REQUIRE (c, same3 (l.pos, p0), "line-set/pos", tn << " pos " << vs (l.pos) << " != p0 " << vs (p0));
+    {
+        Q3 D  = q3 (l.dir);
+        Q3 DX = unit (q3 (p1) - q3 (p0));
+        for (int i = 0; i < 3; ++i)
+            QG_CHK (c, "line-set/dir/ratio", qabs (D[i] - DX[i]), eps, 6, tn << " dir[" << i << "] = " << l.dir[i] << " exact " << qstr (DX[i]) << " for p0=" << vs (p0) << " p1=" << vs (p1)); // measured worst 1.1 units
+        QG_CHK (c, "line-set/dir-unit/ratio", qabs (len (D) - 1), eps, 6, tn << " |dir| = " << qstr (len (D))); // measured worst 1.1 units
+    }
+    // the line used below: the constructed one, or pos + the direction normalised in quad and assigned
+    bool     assigned = s.coin ();
+    Line3<T> L        = l;
+    if (assigned) L.dir = rnd<T> (unit (q3 (d)));
+    c.label (assigned ? RQ_LINE_DIR_ASSIGNED : RQ_LINE_TWO_POINTS);
+    Q3 P = q3 (L.pos), D = q3 (L.dir), Du = unit (D);
+    // ---- query point: generic, on the line, or pos + another vector with small components
+    int      qc  = (int) s.below (3);
+    V        qg  = seq_pt<T> (s);
+    double   qt  = s.uniform (-4, 4);
+    RatioVec rq  = gen_ratio<T> (s, 3);
+    V        q   = qc == 0 ? qg : qc == 1 ? rnd<T> (P + D * (quad) qt) : rnd<T> (P + q3 (ratio3<T> (rq)));
+    VP_NOTE (c, "line=" << vs (L.pos) << "+t" << vs (L.dir) << " q=" << vs (q));
+    {
+        Q3   Q  = q3 (q);
+        quad tx = dot (Q - P, D) / dot (D, D);
+        Q3   CX = P + D * tx;
+        quad S  = len (Q - P) + len (P) + len (Q) + (quad) 1e-30;
+        V    cp = L.closestPointTo (q);
+        Q3   C  = q3 (cp);
+        for (int i = 0; i < 3; ++i)
+            QG_CHK (c, "line-closestPointTo-point/ratio", qabs (C[i] - CX[i]), eps * S, 8, tn << " closestPointTo(" << vs (q) << ")[" << i << "] = " << cp[i] << " exact " << qstr (CX[i]) << " line " << vs (L.pos) << "+t" << vs (L.dir)); // measured worst 1.1 units
+        QG_CHK (c, "line-closestPointTo-point/perp/ratio", qabs (dot (Q - C, D)), eps * S, 8, tn << " (q - closestPointTo(q)).dir != 0 for q=" << vs (q) << " cp=" << vs (cp)); // measured worst 1.2 units
+        T    dist = L.distanceTo (q);
+        quad dx   = len (Q - CX);
+        QG_CHK (c, "line-distanceTo-point/ratio", qabs ((quad) dist - dx), eps * S, 8, tn << " distanceTo(" << vs (q) << ") = " << dist << " exact " << qstr (dx) << " line " << vs (L.pos) << "+t" << vs (L.dir)); // measured worst 1.1 units
+    }
+    // ---- rotatePoint about the line
+    {
+        int    ac = (int) s.below (3);
+        int    am = (int) s.range (-4, 4);
+        double au = s.uniform (-6.3, 6.3);
+        T      ang = ac == 0 ? (T) ((double) am * 1.5707963267948966) : (T) au;
+        Q3     Pq = q3 (q), rel = Pq - P;
+        Q3     ax = Du * dot (rel, Du), pe = rel - ax;
+        quad   a  = -(quad) ang;
+        Q3     RX = P + ax + pe * cosq (a) + cross (Du, pe) * sinq (a);
+        quad   S  = len (Pq) + len (P) + len (rel) + (quad) 1e-300;
+        V      r  = rotatePoint (q, L, ang);
+        for (int i = 0; i < 3; ++i)
+            QG_CHK (c, "rotatePoint/ratio", qabs ((quad) r[i] - RX[i]), eps * S, 12, tn << " rotatePoint(" << vs (q) << ", angle " << ang << ")[" << i << "] = " << r[i] << " exact " << qstr (RX[i])); // measured worst 2.2 units
+    }
+    // ---- planes whose normal has small components
+    RatioVec rn = gen_ratio<T> (s, 3);
+    V        nv = ratio3<T> (rn);
+    ratio_labels<T> (c, rn);
+    c.label (rn.dom == rd.dom ? RQ_SAME_DOMINANT : RQ_DIFFERENT_DOMINANT);
+    int       how = (int) s.below (3);
+    int       ne  = (int) s.range (-6, 6);
+    V         pa  = ratio_pt<T> (s);
+    int       e1s = (int) s.range (-2, 2);
+    int       e2s = (int) s.range (-2, 2);
+    T         dd  = gen::nice<T> (s);
+    Plane3<T> Pl, Pl2;
+    Pl2.normal   = V (9, 9, 9);
+    Pl2.distance = 9;
+    if (how == 0)
+    {
+        // edges (-n_b, n_a, 0) and (-n_c, 0, n_a) in the cyclic order (a, b, c) starting at the largest component a:
+        // their cross product is n_a (n_a, n_b, n_c), without rounding when the first point is the origin
+        int a = rn.dom, b = (a + 1) % 3, cc = (a + 2) % 3;
+        Q3  E1, E2;
+        E1[a]  = -(quad) nv[b];
+        E1[b]  = (quad) nv[a];
+        E2[a]  = -(quad) nv[cc];
+        E2[cc] = (quad) nv[a];
+        V vb = rnd<T> (q3 (pa) + E1 * (quad) std::ldexp (1.0, e1s)), vc = rnd<T> (q3 (pa) + E2 * (quad) std::ldexp (1.0, e2s));
+        Pl   = Plane3<T> (pa, vb, vc);
+        Pl2.set (pa, vb, vc);
+        VP_NOTE (c, "Plane3(p1,p2,p3) p1=" << vs (pa) << " p2=" << vs (vb) << " p3=" << vs (vc));
+        c.label (RQ_PL_THREE_POINTS);
+        Q3   A = q3 (pa), F1 = q3 (vb) - A, F2 = q3 (vc) - A, N = cross (F1, F2);
+        quad sn = len (N) / (len (F1) * len (F2));
+        if (!(sn > (quad) 0.25)) return; // the two edges are perpendicular up to the small components: cannot happen
+        quad condN = 1 / sn;
+        Q3   NX = unit (N), Ns = q3 (Pl.normal);
+        for (int i = 0; i < 3; ++i)
+            QG_CHK (c, "plane-set3/normal/ratio", qabs (Ns[i] - NX[i]), eps * condN, 6, tn << " normal[" << i << "] = " << Pl.normal[i] << " exact " << qstr (NX[i]) << " for (p2-p1)x(p3-p1)"); // measured worst 1.1 units
+        const V* pts[3] = { &pa, &vb, &vc };
+        for (int k = 0; k < 3; ++k)
+        {
+            Q3   X     = q3 (*pts[k]);
+            quad unit_ = eps * (adot (Ns, X) + qabs ((quad) Pl.distance) + (len (F1) + len (F2)) * condN);
+            QG_CHK (c, "plane-set3/distanceTo-defining-point/ratio", qabs ((quad) Pl.distanceTo (*pts[k])), unit_, 4, tn << " distanceTo(defining point " << k << ") = " << Pl.distanceTo (*pts[k])); // measured worst 0.66 units
+        }
+    }
+    else if (how == 1)
+    {
+        V nn = nv * std::ldexp ((T) 1, ne);
+        Pl   = Plane3<T> (pa, nn);
+        Pl2.set (pa, nn);
+        VP_NOTE (c, "Plane3(point,normal) point=" << vs (pa) << " normal=" << vs (nn));
+        c.label (RQ_PL_POINT_NORMAL);
+        Q3 NX = unit (q3 (nn)), Ns = q3 (Pl.normal);
+        for (int i = 0; i < 3; ++i)
+            QG_CHK (c, "plane-set-pn/normal/ratio", qabs (Ns[i] - NX[i]), eps, 6, tn << " normal[" << i << "] = " << Pl.normal[i] << " exact " << qstr (NX[i])); // measured worst 1.0 units
+        quad unit_ = eps * adot (Ns, q3 (pa)) + (quad) 1e-300;
+        QG_CHK (c, "plane-set-pn/distance/ratio", qabs ((quad) Pl.distance - dot (Ns, q3 (pa))), unit_, 6, tn << " distance = " << Pl.distance << " exact normal.point " << qstr (dot (Ns, q3 (pa)))); // measured worst 1.2 units
+    }
+    else
+    {
+        V nn = nv * std::ldexp ((T) 1, ne);
+        Pl   = Plane3<T> (nn, dd);
+        Pl2.set (nn, dd);
+        VP_NOTE (c, "Plane3(normal,distance) normal=" << vs (nn) << " d=" << dd);
+        c.label (RQ_PL_NORMAL_DIST);
+        Q3 NX = unit (q3 (nn)), Ns = q3 (Pl.normal);
+        for (int i = 0; i < 3; ++i)
+            QG_CHK (c, "plane-set-nd/normal/ratio", qabs (Ns[i] - NX[i]), eps, 6, tn << " normal[" << i << "] = " << Pl.normal[i] << " exact " << qstr (NX[i])); // measured worst 0.97 units
+        VP_REQUIRE (c, same<T> (Pl.distance, dd), "plane-set-nd/distance", tn << " distance " << Pl.distance << " != " << dd);
+    }
+    VP_REQUIRE (c, same3 (Pl.normal, Pl2.normal) && same<T> (Pl.distance, Pl2.distance), "plane-ctor-vs-set", tn << " constructor and set() differ: " << vs (Pl.normal) << "," << Pl.distance << " vs " << vs (Pl2.normal) << "," << Pl2.distance);
+    Q3   N   = q3 (Pl.normal);
+    quad dpl = (quad) Pl.distance;
+    QG_CHK (c, "plane-unit-normal/ratio", qabs (len (N) - 1), eps, 6, tn << " |normal| = " << qstr (len (N))); // measured worst 1.2 units
+    {
+        Q3   Q  = q3 (q);
+        quad sd = dot (N, Q) - dpl;
+        quad Sq = adot (N, Q) + qabs (dpl) + (quad) 1e-300;
+        T    dq = Pl.distanceTo (q);
+        QG_CHK (c, "plane-distanceTo/ratio", qabs ((quad) dq - sd), eps * Sq, 8, tn << " distanceTo(" << vs (q) << ") = " << dq << " exact " << qstr (sd)); // measured worst 1.3 units
+        V    r  = Pl.reflectPoint (q);
+        Q3   RX = Q - N * (2 * sd);
+        quad Sr = len (Q) + qabs (dpl) + qabs (sd) + (quad) 1e-300;
+        for (int i = 0; i < 3; ++i)
+            QG_CHK (c, "plane-reflectPoint/ratio", qabs ((quad) r[i] - RX[i]), eps * Sr, 8, tn << " reflectPoint(" << vs (q) << ")[" << i << "] = " << r[i] << " exact " << qstr (RX[i])); // measured worst 1.4 units
+    }
+    {
+        int      vc = (int) s.below (3);
+        V        vg = gen_offset<T> (s);
+        RatioVec rv = gen_ratio<T> (s, 3);
+        double   ph = s.uniform (0, 6.283);
+        V        v  = vc == 0 ? vg : vc == 1 ? ratio3<T> (rv) : rnd<T> (perp_to (N, (quad) ph));
+        Q3       Vq = q3 (v);
+        V        r  = Pl.reflectVector (v);
+        Q3       RX = N * (2 * dot (N, Vq)) - Vq;
+        quad     Sv = len (Vq);
+        for (int i = 0; i < 3; ++i)
+            QG_CHK (c, "plane-reflectVector/ratio", qabs ((quad) r[i] - RX[i]), eps * Sv, 12, tn << " reflectVector(" << vs (v) << ")[" << i << "] = " << r[i] << " exact 2(n.v)n-v " << qstr (RX[i])); // measured worst 2.7 units
+    }
+    // ---- the line against the plane: n.dir ~ 1 when the largest components share an axis, else ~ 2^-k (grazing)
+    {
+        Q3   LP = P, LD = D;
+        quad nd = dot (N, LD);
+        V    ip (7, 7, 7);
+        T    t  = 7;
+        bool ok = Pl.intersect (L, ip), okT = Pl.intersectT (L, t);
+        VP_REQUIRE (c, ok == okT, "plane-intersect-vs-intersectT", tn << " intersect returns " << ok << ", intersectT " << okT);
+        if (!ok)
+        {
+            c.label (RQ_HIT_PARALLEL_FALSE);
+            VP_REQUIRE (c, qabs (nd) <= 4 * eps * adot (N, LD) + (quad) 1e-300, "plane-intersect/false-for-crossing-line", tn << " intersect() returned false although normal.dir = " << qstr (nd));
+        }
+        else
+        {
+            VP_REQUIRE (c, same3 (ip, L (t)), "plane-intersect/point-vs-T", tn << " intersect() point " << vs (ip) << " != line(intersectT) " << vs (L (t)));
+            quad and_   = adot (N, LD);
+            bool strong = qabs (nd) >= 1024 * eps * and_;
+            c.label (strong ? RQ_HIT_STRONG : RQ_HIT_GRAZING);
+            if (strong)
+            {
+                quad tx = (dpl - dot (N, LP)) / nd;
+                quad ut = eps * ((adot (N, LP) + qabs (dpl)) / qabs (nd) + qabs (tx) * and_ / qabs (nd)) + (quad) 1e-300;
+                QG_CHK (c, "plane-intersectT/ratio", qabs ((quad) t - tx), ut, 6, tn << " intersectT = " << t << " exact " << qstr (tx) << " normal.dir=" << (double) nd); // measured worst 1.1 units
+                Q3   IX = LP + LD * tx;
+                quad up = ut + eps * (len (LP) + qabs (tx));
+                for (int i = 0; i < 3; ++i)
+                    QG_CHK (c, "plane-intersect/point/ratio", qabs ((quad) ip[i] - IX[i]), up, 4, tn << " intersect point[" << i << "] = " << ip[i] << " exact " << qstr (IX[i])); // measured worst 0.66 units
+            }
+        }
+    }
+}
+#define C15_RQP_LABELS C15_RQ_BASE, "line_from_two_points", "line_direction_assigned", "plane_from_three_points", "plane_from_point_normal", "plane_from_normal_distance", "line_hit_well_conditioned", "line_grazing", "line_parallel_reported", "line_and_normal_same_dominant_axis", "line_and_normal_different_dominant_axes"
+#define C15_RQP_REQUIRED C15_RQ_BASE, "line_from_two_points", "line_direction_assigned", "plane_from_three_points", "plane_from_point_normal", "plane_from_normal_distance", "line_hit_well_conditioned", "line_and_normal_same_dominant_axis", "line_and_normal_different_dominant_axes"
+#define C15_RQ_RULE "direction / normal vectors with a largest component (1+u) 2^-2..2^2 on a random axis and one or two others smaller by 2^-k, k uniform in 1 .. digits+10 (the rest zero or comparable), every sign pattern incl. signed zeros, mantissa 1 / four bits / full; "
+#define C15_RQP_RULE C15_RQ_RULE "a line through p0 and p0 + d 2^j (p0 = 0 / lattice / generic / a multiple of d) or with the quad-normalised direction assigned; query points generic, on the line, pos + another such vector; rotatePoint by quarter turns or +-2pi; planes from three points with edges (-n_b,n_a,0), (-n_c,0,n_a), from point+normal and normal+distance; reflectVector of generic / small-component / in-plane vectors; the line against the plane (grazing at 2^-k when the dominant axes differ); oracle = quad formulas on the stored objects, bounds of the sub-checks line_point_*, plane_*, linealgo_*; all cases non-trivial"
+VP_RANDOM (ratio_prims_f, 100000, 1000000, C15_RQP_RULE) { ratio_prims_case<float> (c, "float"); }
+VP_LABELS (ratio_prims_f, C15_RQP_LABELS)
+VP_REQUIRE_LABELS (ratio_prims_f, C15_RQP_REQUIRED)
+VP_RANDOM (ratio_prims_d, 100000, 1000000, C15_RQP_RULE) { ratio_prims_case<double> (c, "double"); }
+VP_LABELS (ratio_prims_d, C15_RQP_LABELS)
+VP_REQUIRE_LABELS (ratio_prims_d, C15_RQP_REQUIRED)
+
+// ---- 11b. project / orthogonal / reflect (ImathVecAlgo.h) with such an s, Vec2 / Vec3 / Vec4
+enum
+{
+    RQV_VEC2 = RQ_NBASE,
+    RQV_VEC3,
+    RQV_VEC4,
+    RQV_T_GENERIC,
+    RQV_T_RATIO,
+    RQV_T_PARALLEL,
+    RQV_T_PERP
+};
+template <class Vec, class T, int N> static void ratio_vec_case (vp::Ctx& c, const char* tn)
+{
+    vp::Src&   s   = c.s;
+    const quad eps = EPS<T> ();
+    RatioVec   rs  = gen_ratio<T> (s, N);
+    ratio_labels<T> (c, rs);
+    c.nt (true);
+    int      sc = (int) s.range (-12, 12);
+    int      tc = (int) s.below (4);
+    RatioVec rt = gen_ratio<T> (s, N);
+    double   pf = s.uniform (-3, 3);
+    int      pj = (int) s.below ((uint64_t) (N - 1));
+    Vec      ss, tv;
+    for (int i = 0; i < N; ++i)
+    {
+        ss[i] = (T) std::ldexp (rs.v[i], sc);
+        tv[i] = gen::nice<T> (s);
+    }
+    if (tc == 1)
+        for (int i = 0; i < N; ++i)
+            tv[i] = (T) rt.v[i];
+    else if (tc == 2)
+        for (int i = 0; i < N; ++i)
+            tv[i] = (T) (rs.v[i] * pf);
+    else if (tc == 3) // exactly perpendicular to the stored s: (-s_j, s_dom) in the plane of the largest and another component
+    {
+        int j = pj >= rs.dom ? pj + 1 : pj;
+        for (int i = 0; i < N; ++i)
+            tv[i] = 0;
+        tv[rs.dom] = (T) -rs.v[j];
+        tv[j]      = (T) rs.v[rs.dom];
+    }
+    c.label (tc == 0 ? RQV_T_GENERIC : tc == 1 ? RQV_T_RATIO : tc == 2 ? RQV_T_PARALLEL : RQV_T_PERP);
+    VP_NOTE (c, tn << " s=" << vstr (ss, N) << " t=" << vstr (tv, N));
+    quad S[N], Tq[N], s2 = 0, st = 0, t2 = 0;
+    for (int i = 0; i < N; ++i)
+    {
+        S[i]  = (quad) ss[i];
+        Tq[i] = (quad) tv[i];
+        s2 += S[i] * S[i];
+        st += S[i] * Tq[i];
+        t2 += Tq[i] * Tq[i];
+    }
+    quad lt = sqrtq (t2), ls = sqrtq (s2);
+    quad ut = eps * lt + (quad) 1e-300;
+    Vec  pr = project (ss, tv), og = orthogonal (ss, tv);
+    quad dots = 0;
+    for (int i = 0; i < N; ++i)
+    {
+        quad px = S[i] * st / s2;
+        QG_CHK (c, "project/ratio", qabs ((quad) pr[i] - px), ut, 16, tn << " project(s,t)[" << i << "] = " << pr[i] << " exact " << qstr (px) << " s=" << vstr (ss, N) << " t=" << vstr (tv, N)); // measured worst 2.3 units
+        QG_CHK (c, "orthogonal/ratio", qabs ((quad) og[i] - (Tq[i] - px)), ut, 16, tn << " orthogonal(s,t)[" << i << "] = " << og[i] << " exact " << qstr (Tq[i] - px) << " s=" << vstr (ss, N) << " t=" << vstr (tv, N)); // measured worst 2.3 units
+        dots += (quad) og[i] * S[i] / ls;
+    }
+    QG_CHK (c, "orthogonal/perp/ratio", qabs (dots), ut, 16, tn << " orthogonal(s,t).s/|s| = " << qstr (dots)); // measured worst 2.6 units
+    Vec  rf = reflect (tv, ss);
+    quad l2 = 0;
+    for (int i = 0; i < N; ++i)
+    {
+        quad rx = 2 * S[i] * st / s2 - Tq[i];
+        QG_CHK (c, "reflect/ratio", qabs ((quad) rf[i] - rx), ut, 32, tn << " reflect(t,s)[" << i << "] = " << rf[i] << " exact " << qstr (rx) << " s=" << vstr (ss, N) << " t=" << vstr (tv, N)); // measured worst 4.6 units
+        l2 += (quad) rf[i] * (quad) rf[i];
+    }
+    QG_CHK (c, "reflect/length/ratio", qabs (sqrtq (l2) - lt), ut, 32, tn << " |reflect(t,s)| = " << qstr (sqrtq (l2)) << " |t| = " << qstr (lt)); // measured worst 5.2 units
+}
+template <class T> static void ratio_vec_dispatch (vp::Ctx& c)
+{
+    int N = 2 + (int) c.s.below (3);
+    c.label (N == 2 ? RQV_VEC2 : N == 3 ? RQV_VEC3 : RQV_VEC4);
+    const bool dbl = sizeof (T) == 8;
+    if (N == 2)
+        ratio_vec_case<Vec2<T>, T, 2> (c, dbl ? "V2d" : "V2f");
+    else if (N == 3)
+        ratio_vec_case<Vec3<T>, T, 3> (c, dbl ? "V3d" : "V3f");
+    else
+        ratio_vec_case<Vec4<T>, T, 4> (c, dbl ? "V4d" : "V4f");
+}
+#define C15_RQV_LABELS C15_RQ_BASE, "Vec2", "Vec3", "Vec4", "t_generic", "t_with_small_components", "t_parallel_s", "t_exactly_perpendicular_s"
+#define C15_RQV_RULE C15_RQ_RULE "s such a vector scaled by 2^-12..2^12 (Vec2/3/4), t generic, another such vector, a multiple of s, or exactly perpendicular to s; oracle = quad formulas on the rounded inputs, units eps |t| as in vecalgo_*; all cases non-trivial"
+VP_RANDOM (ratio_vec_f, 60000, 600000, C15_RQV_RULE) { ratio_vec_dispatch<float> (c); }
+VP_LABELS (ratio_vec_f, C15_RQV_LABELS)
+VP_REQUIRE_LABELS (ratio_vec_f, C15_RQV_LABELS)
+VP_RANDOM (ratio_vec_d, 60000, 600000, C15_RQV_RULE) { ratio_vec_dispatch<double> (c); }
+VP_LABELS (ratio_vec_d, C15_RQV_LABELS)
+VP_REQUIRE_LABELS (ratio_vec_d, C15_RQV_LABELS)
+
+// ---- 11c. two lines, sphere, triangle with such line directions (and triangle normals): the draw-free check
+//      functions of sections 9c, 4 and 5 on these inputs.  Label ids of those functions are kept; the labels of
+//      this section follow them.
+template <class T> static Line3<T> ratio_line (vp::Src& s, const RatioVec& r, const Vec3<T>& pos)
+{
+    typedef Vec3<T> V;
+    bool     two = s.coin ();
+    int      se  = (int) s.range (-2, 2);
+    V        d   = ratio3<T> (r);
+    Line3<T> l;
+    if (two)
+    {
+        V p1 = rnd<T> (q3 (pos) + q3 (d) * (quad) std::ldexp (1.0, se));
+        if (p1 == pos) p1[r.dom] += 1;
+        l = Line3<T> (pos, p1);
+    }
+    else
+    {
+        l.pos = pos;
+        l.dir = rnd<T> (unit (q3 (d)));
+    }
+    return l;
+}
+enum
+{
+    RQL_BASE = FLL_DIST_NEARPAR_CHECKED + 1,
+    RQL_SAME_DOMINANT = RQL_BASE + RQ_NBASE,
+    RQL_DIFFERENT_DOMINANT
+};
+template <class T> static void ratio_lines_case (vp::Ctx& c, const char* tn)
+{
+    typedef Vec3<T> V;
+    vp::Src&        s  = c.s;
+    RatioVec        r1 = gen_ratio<T> (s, 3);
+    RatioVec        r2 = gen_ratio<T> (s, 3);
+    V               a  = ratio_pt<T> (s);
+    V               b  = ratio_pt<T> (s);
+    Line3<T>        l1 = ratio_line<T> (s, r1, a);
+    Line3<T>        l2 = ratio_line<T> (s, r2, b);
+    ratio_labels<T> (c, r1, RQL_BASE);
+    ratio_labels<T> (c, r2, RQL_BASE);
+    c.label (r1.dom == r2.dom ? RQL_SAME_DOMINANT : RQL_DIFFERENT_DOMINANT);
+    c.nt (true);
+    VP_NOTE (c, tn << " line1=" << vs (l1.pos) << "+t" << vs (l1.dir) << " line2=" << vs (l2.pos) << "+t" << vs (l2.dir));
+    far_lines_check<T> (c, tn, l1, l2);
+}
+#define C15_RQL_LABELS C15_FLL_LABELS, C15_RQ_BASE, "same_dominant_axis(nearly_parallel)", "different_dominant_axes(nearly_perpendicular)"
+#define C15_RQL_REQUIRED "well_conditioned(strict)", "ill_conditioned(weak)", "distanceTo_line_checked", C15_RQ_BASE, "same_dominant_axis(nearly_parallel)", "different_dominant_axes(nearly_perpendicular)"
+#define C15_RQL_RULE C15_RQ_RULE "two lines with such directions (from two points or assigned), origins 0 / lattice / generic: nearly parallel at 2^-k when the dominant axes agree, nearly perpendicular otherwise; checks and bounds of far_lines_*; all cases non-trivial"
+VP_RANDOM (ratio_lines_f, 60000, 600000, C15_RQL_RULE) { ratio_lines_case<float> (c, "float"); }
+VP_LABELS (ratio_lines_f, C15_RQL_LABELS)
+VP_REQUIRE_LABELS (ratio_lines_f, C15_RQL_REQUIRED)
+VP_RANDOM (ratio_lines_d, 60000, 600000, C15_RQL_RULE) { ratio_lines_case<double> (c, "double"); }
+VP_LABELS (ratio_lines_d, C15_RQL_LABELS)
+VP_REQUIRE_LABELS (ratio_lines_d, C15_RQL_REQUIRED)
+
+enum
+{
+    RQS_BASE = SP_SECOND_ROOT + 1
+};
+template <class T> static void ratio_sphere_case (vp::Ctx& c, const char* tn)
+{
+    typedef Vec3<T> V;
+    vp::Src&        s   = c.s;
+    RatioVec        rd  = gen_ratio<T> (s, 3);
+    V               cen = ratio_pt<T> (s);
+    int             rc  = (int) s.below (3);
+    double          ru  = s.uniform (1, 2);
+    int             rj  = (int) s.range (1, 8);
+    T               rad = (T) (rc == 0 ? std::ldexp (ru, -rj) : rc == 1 ? ru * 16 : ru);
+    Q3              td  = seq_dir (s);
+    double          g   = s.uniform (0, 1.3);
+    double          bk  = s.uniform (-2, 6);
+    Q3              Cn = q3 (cen), Du = unit (q3 (ratio3<T> (rd)));
+    quad            R  = (quad) rad;
+    Q3              tg = Cn + td * (R * (quad) g); // a point within 1.3 radii of the centre the line passes through
+    V               pos = rnd<T> (tg - Du * (R * (quad) bk));
+    Line3<T>        l   = ratio_line<T> (s, rd, pos);
+    Sphere3<T>      sp (cen, rad);
+    ratio_labels<T> (c, rd, RQS_BASE);
+    VP_NOTE (c, tn << " sphere centre=" << vs (cen) << " r=" << rad << " line=" << vs (l.pos) << "+t" << vs (l.dir));
+    sphere_check<T> (c, tn, sp, l);
+}
+#define C15_RQS_LABELS C15_SP_LABELS, C15_RQ_BASE
+#define C15_RQS_REQUIRED "origin_outside_hit", "origin_outside_sphere_behind", "origin_inside", "clear_miss", "returned_true", "returned_false", "larger_root_expected", C15_RQ_BASE
+#define C15_RQS_RULE C15_RQ_RULE "spheres with r 2^-8..32 at 0 / lattice / generic centres; a line with such a direction through a point within 1.3 radii of the centre, origin -2..6 radii before it; checks, bounds and non-trivial as in sphere_*"
+VP_RANDOM (ratio_sphere_f, 60000, 600000, C15_RQS_RULE) { ratio_sphere_case<float> (c, "float"); }
+VP_LABELS (ratio_sphere_f, C15_RQS_LABELS)
+VP_REQUIRE_LABELS (ratio_sphere_f, C15_RQS_REQUIRED)
+VP_RANDOM (ratio_sphere_d, 60000, 600000, C15_RQS_RULE) { ratio_sphere_case<double> (c, "double"); }
+VP_LABELS (ratio_sphere_d, C15_RQS_LABELS)
+VP_REQUIRE_LABELS (ratio_sphere_d, C15_RQS_REQUIRED)
+
+enum
+{
+    RQT_BASE = TR_FALSE + 1,
+    RQT_NORMAL_RATIO = RQT_BASE + RQ_NBASE,
+    RQT_GENERIC_TRIANGLE
+};
+template <class T> static void ratio_tri_case (vp::Ctx& c, const char* tn)
+{
+    typedef Vec3<T> V;
+    vp::Src&        s  = c.s;
+    RatioVec        rd = gen_ratio<T> (s, 3);
+    RatioVec        rn = gen_ratio<T> (s, 3);
+    bool            nr = s.coin ();
+    V               v0 = ratio_pt<T> (s);
+    V               e1 = gen_offset<T> (s);
+    double          ga = s.uniform (-1.5, 2.5);
+    double          be = s.uniform (0.2, 2);
+    double          ph = s.uniform (0, 6.283);
+    int             e1s = (int) s.range (-2, 2);
+    int             e2s = (int) s.range (-2, 2);
+    V               v1, v2;
+    if (nr) // triangle whose normal has small components: the edges of section 11a
+    {
+        V   nv = ratio3<T> (rn);
+        int a = rn.dom, b = (a + 1) % 3, cc = (a + 2) % 3;
+        Q3  E1, E2;
+        E1[a]  = -(quad) nv[b];
+        E1[b]  = (quad) nv[a];
+        E2[a]  = -(quad) nv[cc];
+        E2[cc] = (quad) nv[a];
+        v1     = rnd<T> (q3 (v0) + E1 * (quad) std::ldexp (1.0, e1s));
+        v2     = rnd<T> (q3 (v0) + E2 * (quad) std::ldexp (1.0, e2s));
+        ratio_labels<T> (c, rn, RQT_BASE);
+        c.label (RQT_NORMAL_RATIO);
+    }
+    else
+    {
+        Q3 E1 = q3 (e1);
+        Q3 E2 = E1 * (quad) ga + perp_to (E1, (quad) ph) * (len (E1) * (quad) be);
+        v1    = v0 + e1;
+        v2    = v0 + rnd<T> (E2);
+        c.label (RQT_GENERIC_TRIANGLE);
+    }
+    ratio_labels<T> (c, rd, RQT_BASE);
+    // intended hit: interior, 2^-j inside / outside an edge, clearly outside
+    int    bc = (int) s.below (4);
+    double x  = s.uniform (0.05, 1);
+    double y  = s.uniform (0.05, 1);
+    double z  = s.uniform (0.05, 1);
+    quad   sm = tiny_pert<T> (s) * 8;
+    bool   ng = s.coin ();
+    int    k  = (int) s.below (3);
+    double ou = s.uniform (0.05, 2);
+    quad   bb[3] = { (quad) x, (quad) y, (quad) z };
+    if (ng) sm = -sm;
+    if (bc == 1) bb[k] = sm * (bb[0] + bb[1] + bb[2]);
+    if (bc == 2) bb[k] = -(quad) ou * (bb[0] + bb[1] + bb[2]);
+    quad sum = bb[0] + bb[1] + bb[2];
+    for (int i = 0; i < 3; ++i)
+        bb[i] /= sum;
+    Q3     H  = q3 (v0) * bb[0] + q3 (v1) * bb[1] + q3 (v2) * bb[2];
+    double Lu = s.uniform (0.5, 8);
+    bool   beh = s.chance (64);
+    Q3     Du = unit (q3 (ratio3<T> (rd)));
+    V      o  = rnd<T> (H - Du * ((quad) Lu * (beh ? -1 : 1)));
+    Line3<T> l = ratio_line<T> (s, rd, o);
+    if (beh) c.label (TR_NEG_T);
+    VP_NOTE (c, tn << " v0=" << vs (v0) << " v1=" << vs (v1) << " v2=" << vs (v2) << " line=" << vs (l.pos) << "+t" << vs (l.dir));
+    Q3 Nt = cross (q3 (v1) - q3 (v0), q3 (v2) - q3 (v0));
+    if (!(len (Nt) > 0))
+    {
+        c.label (TR_ILLCOND);
+        return;
+    }
+    tri_check<T> (c, tn, v0, v1, v2, l, false, false, false);
+}
+#define C15_RQT_LABELS C15_TR_LABELS, C15_RQ_BASE, "triangle_normal_with_small_components", "generic_triangle"
+#define C15_RQT_REQUIRED "hit_interior", "hit_near_edge", "passes_outside", "front_facing", "back_facing", "hit_behind_line_origin", "returned_true", "returned_false", C15_RQ_BASE, "triangle_normal_with_small_components", "generic_triangle"
+#define C15_RQT_RULE C15_RQ_RULE "a line with such a direction through an intended hit (interior, 2^-j inside / outside an edge, clearly outside) of a generic triangle or of one whose normal is such a vector (edges (-n_b,n_a,0), (-n_c,0,n_a)); checks, bounds, band and non-trivial as in tri_*"
+VP_RANDOM (ratio_tri_f, 80000, 800000, C15_RQT_RULE) { ratio_tri_case<float> (c, "float"); }
+VP_LABELS (ratio_tri_f, C15_RQT_LABELS)
+VP_REQUIRE_LABELS (ratio_tri_f, C15_RQT_REQUIRED)
+VP_RANDOM (ratio_tri_d, 80000, 800000, C15_RQT_RULE) { ratio_tri_case<double> (c, "double"); }
+VP_LABELS (ratio_tri_d, C15_RQT_LABELS)
+VP_REQUIRE_LABELS (ratio_tri_d, C15_RQT_REQUIRED)
+
+// =====================================================================================
+// 12. Exact coincidences of arguments, on lattice data (small integers / eighths, axis-aligned directions), so that
+//     every intermediate quantity of a straightforward evaluation is exact: radius 0, default-constructed sphere,
+//     circumscribe of a one-point box, ray origin exactly at the centre / on the surface, both at once; query point
+//     exactly the line's origin / on the line / on the plane / a vertex; lines through a common point; a line
+//     through a vertex / an edge point of a triangle; rotatePoint of a point of the axis; project of the zero vector.
+//     Demanded: finite results that satisfy the statement's relation (which is exact here: t = 0, distance 0, the
+//     point itself); where the direction is a normalised lattice vector (not exact) the bounds of sections 1 - 6.
+//     Every assertion below holds exactly on the unchanged tree (measured: all "exact" comparisons are met with
+//     error 0 in the three binaries).
+// =====================================================================================
+enum
+{
+    CO_POINT_SPHERE_FROM_CENTRE,
+    CO_POINT_SPHERE_FROM_OUTSIDE,
+    CO_ORIGIN_AT_CENTRE,
+    CO_ORIGIN_ON_SURFACE,
+    CO_POINT_ON_LINE,
+    CO_LINES_COMMON_POINT,
+    CO_POINT_ON_PLANE,
+    CO_LATTICE_PLANE,
+    CO_TRI_VERTEX_EDGE,
+    CO_CLOSEST_VERTEX,
+    CO_ROTATE_AXIS_POINT,
+    CO_VECALGO,
+    CO_NKINDS,
+    CO_DEFAULT_SPHERE = CO_NKINDS,
+    CO_ONE_POINT_BOX,
+    CO_DIR_AXIS,
+    CO_DIR_LATTICE,
+    CO_DIR_RANDOM,
+    CO_TRI_VERTEX,
+    CO_TRI_EDGE,
+    CO_TRI_INTERIOR,
+    CO_TRI_OUTSIDE,
+    CO_TRI_ORIGIN_ON_TRIANGLE,
+    CO_TRI_OBLIQUE,
+    CO_LINES_PARALLEL
+};
+#define C15_CO_LABELS "radius_0_and_origin_at_centre", "radius_0_origin_elsewhere", "origin_exactly_at_centre", "origin_exactly_on_surface", "query_point_on_line", "lines_through_common_point", "point_on_axis_aligned_plane", "point_on_lattice_plane", "line_through_triangle_vertex_or_edge", "closestVertex_of_a_vertex", "rotatePoint_of_axis_point", "project_of_zero_or_of_s", "default_constructed_sphere", "circumscribe_one_point_box", "direction_axis_aligned", "direction_normalised_lattice_vector", "direction_random_unit", "tri_through_vertex", "tri_through_edge_point", "tri_through_interior_lattice_point", "tri_through_outside_lattice_point", "tri_line_origin_on_triangle", "tri_oblique_line", "common_point_lines_parallel"
+
+template <class T> static inline Vec3<T> lat_pt (vp::Src& s)
+{
+    int  x  = (int) s.range (-8, 8);
+    int  y  = (int) s.range (-8, 8);
+    int  z  = (int) s.range (-8, 8);
+    bool e8 = s.chance (64);
+    T    sc = e8 ? (T) 0.125 : (T) 1;
+    return Vec3<T> ((T) x * sc, (T) y * sc, (T) z * sc);
+}
+template <class T> static inline Vec3<T> lat_vec (vp::Src& s, int lim) // non-zero integer vector
+{
+    int x = (int) s.range (-lim, lim);
+    int y = (int) s.range (-lim, lim);
+    int z = (int) s.range (-lim, lim);
+    if (x == 0 && y == 0 && z == 0) x = 1;
+    return Vec3<T> ((T) x, (T) y, (T) z);
+}
+template <class T> static inline Vec3<T> axis_vec (int ax, int sg)
+{
+    Vec3<T> v (0, 0, 0);
+    v[ax] = (T) sg;
+    return v;
+}
+// a unit direction: axis-aligned (exact), a lattice vector normalised in quad, or random; class in *cls
+template <class T> static inline Vec3<T> any_unit (vp::Ctx& c, int* cls = 0)
+{
+    vp::Src& s  = c.s;
+    int      k  = (int) s.below (3);
+    int      ax = (int) s.below (3);
+    bool     ng = s.coin ();
+    Vec3<T>  lv = lat_vec<T> (s, 4);
+    Q3       r  = seq_dir (s);
+    if (cls) *cls = k;
+    c.label (k == 0 ? CO_DIR_AXIS : k == 1 ? CO_DIR_LATTICE : CO_DIR_RANDOM);
+    if (k == 0) return axis_vec<T> (ax, ng ? -1 : 1);
+    if (k == 1) return rnd<T> (unit (q3 (lv)));
+    return rnd<T> (r);
+}
+template <class T> static inline bool eq3 (const Vec3<T>& a, const Vec3<T>& b) { return a.x == b.x && a.y == b.y && a.z == b.z; }
+
+template <class Vec, class T, int N> static void coincide_vec (vp::Ctx& c, const char* tn, int kind)
+{
+    vp::Src&   s   = c.s;
+    const quad eps = EPS<T> ();
+    Vec        v[3], p, sv;
+    for (int k = 0; k < 3; ++k)
+        for (int i = 0; i < N; ++i)
+            v[k][i] = (T) s.range (-4, 4);
+    bool z = true;
+    for (int i = 0; i < N; ++i)
+    {
+        sv[i] = (T) s.range (-4, 4);
+        if (sv[i] != 0) z = false;
+    }
+    if (z) sv[0] = 1;
+    int  which = (int) s.below (3);
+    bool dup   = s.chance (48);
+    int  sc    = (int) s.range (-12, 12);
+    int  tc    = (int) s.below (3);
+    int  tm    = (int) s.range (-3, 3);
+    if (kind == CO_CLOSEST_VERTEX)
+    {
+        if (dup) v[(which + 1) % 3] = v[which];
+        p      = v[which];
+        Vec cv = closestVertex (v[0], v[1], v[2], p);
+        VP_NOTE (c, tn << " closestVertex(" << vstr (v[0], N) << "," << vstr (v[1], N) << "," << vstr (v[2], N) << "; p = vertex " << which << ")");
+        bool same_ = true;
+        for (int i = 0; i < N; ++i)
+            if (!(cv[i] == p[i])) same_ = false;
+        VP_REQUIRE (c, same_, "closestVertex/query-is-a-vertex", tn << " closestVertex(" << vstr (v[0], N) << "," << vstr (v[1], N) << "," << vstr (v[2], N) << "; p=" << vstr (p, N) << ") = " << vstr (cv, N) << " although p is vertex " << which << " itself");
+        return;
+    }
+    // project / orthogonal / reflect with t = 0, t = s, t = m s
+    Vec ss = sv * std::ldexp ((T) 1, sc), tv;
+    for (int i = 0; i < N; ++i)
+        tv[i] = tc == 0 ? (T) 0 : tc == 1 ? ss[i] : ss[i] * (T) tm;
+    VP_NOTE (c, tn << " s=" << vstr (ss, N) << " t=" << vstr (tv, N));
+    Vec  pr = project (ss, tv), og = orthogonal (ss, tv), rf = reflect (tv, ss);
+    quad lt = 0;
+    for (int i = 0; i < N; ++i)
+        lt += (quad) tv[i] * (quad) tv[i];
+    lt = sqrtq (lt);
+    for (int i = 0; i < N; ++i)
+    {
+        // t is a multiple of s: project = t, orthogonal = 0, reflect (t, s) = t
+        QG_CHK (c, "project/t-multiple-of-s", qabs ((quad) pr[i] - (quad) tv[i]), eps * lt + (quad) 1e-300, 16, tn << " project(s,t)[" << i << "] = " << pr[i] << " for t = " << vstr (tv, N) << " parallel to s = " << vstr (ss, N)); // measured worst 1.9 units
+        QG_CHK (c, "orthogonal/t-multiple-of-s", qabs ((quad) og[i]), eps * lt + (quad) 1e-300, 16, tn << " orthogonal(s,t)[" << i << "] = " << og[i] << " for t = " << vstr (tv, N) << " parallel to s = " << vstr (ss, N)); // measured worst 1.9 units
+        QG_CHK (c, "reflect/t-multiple-of-s", qabs ((quad) rf[i] - (quad) tv[i]), eps * lt + (quad) 1e-300, 32, tn << " reflect(t,s)[" << i << "] = " << rf[i] << " for t = " << vstr (tv, N) << " parallel to s = " << vstr (ss, N)); // measured worst 3.8 units
+    }
+}
+
+template <class T> static void coincide_case (vp::Ctx& c, const char* tn)
+{
+    typedef Vec3<T> V;
+    vp::Src&        s    = c.s;
+    const quad      eps  = EPS<T> ();
+    int             kind = (int) s.below (CO_NKINDS);
+    c.label (kind);
+    c.nt (true);
+    switch (kind)
+    {
+        case CO_POINT_SPHERE_FROM_CENTRE: // radius 0 AND ray origin exactly at the centre: l(0) is the one point of the sphere
+        {
+            V          cen = lat_pt<T> (s);
+            int        how = (int) s.below (3);
+            V          dir = any_unit<T> (c);
+            Sphere3<T> sp (cen, 0);
+            if (how == 1)
+            {
+                sp  = Sphere3<T> ();
+                cen = V (0, 0, 0);
+                c.label (CO_DEFAULT_SPHERE);
+                VP_REQUIRE (c, eq3 (sp.center, cen) && sp.radius == 0, "sphere-default-ctor", tn << " Sphere3() = " << vs (sp.center) << ", r = " << sp.radius);
+            }
+            if (how == 2)
+            {
+                sp = Sphere3<T> (V (5, 5, 5), (T) 55);
+                sp.circumscribe (Box<V> (cen, cen));
+                c.label (CO_ONE_POINT_BOX);
+                VP_REQUIRE (c, eq3 (sp.center, cen) && sp.radius == 0, "sphere-circumscribe/one-point-box", tn << " circumscribe(box of the single point " << vs (cen) << ") = centre " << vs (sp.center) << ", r = " << sp.radius);
+            }
+            Line3<T> l;
+            l.pos = sp.center;
+            l.dir = dir;
+            VP_NOTE (c, tn << " sphere centre=" << vs (sp.center) << " r=0 (how " << how << ") line from the centre, dir " << vs (dir));
+            T    t = -7;
+            V    ip (7, 7, 7);
+            bool okT = sp.intersectT (l, t), ok = sp.intersect (l, ip);
+            VP_REQUIRE (c, okT && t == 0, "sphere-intersectT/radius-0-origin-at-centre", tn << " intersectT of the radius-0 sphere at " << vs (cen) << " from its centre, dir " << vs (dir) << ": returned " << okT << ", t = " << t << " (the origin is the sphere's one point: true, t = 0)");
+            VP_REQUIRE (c, ok && eq3 (ip, cen), "sphere-intersect/radius-0-origin-at-centre", tn << " intersect of the radius-0 sphere at " << vs (cen) << " from its centre, dir " << vs (dir) << ": returned " << ok << ", point " << vs (ip));
+            break;
+        }
+        case CO_POINT_SPHERE_FROM_OUTSIDE: // radius 0, origin on an axis-parallel line through / past the centre
+        {
+            V    cen = lat_pt<T> (s);
+            int  ax  = (int) s.below (3);
+            bool ng  = s.coin ();
+            int  k   = (int) s.range (1, 8);
+            int  m   = (int) s.below (3);
+            bool away = s.chance (64);
+            int  sg  = ng ? -1 : 1;
+            V    pos = cen - axis_vec<T> (ax, sg) * (T) k + axis_vec<T> ((ax + 1) % 3, 1) * (T) m;
+            Line3<T> l;
+            l.pos = pos;
+            l.dir = axis_vec<T> (ax, away ? -sg : sg);
+            Sphere3<T> sp (cen, 0);
+            VP_NOTE (c, tn << " sphere centre=" << vs (cen) << " r=0 line=" << vs (l.pos) << "+t" << vs (l.dir));
+            T    t = -7;
+            V    ip (7, 7, 7);
+            bool okT = sp.intersectT (l, t), ok = sp.intersect (l, ip);
+            bool expect = m == 0 && !away;
+            // the line misses the point by m >= 1 or leaves it behind: false whatever the rounding.  The hit itself is a
+            // double root (discriminant exactly 0 in exact arithmetic - and in T on this lattice): its own key.
+            if (!expect) VP_REQUIRE (c, !okT && !ok, "sphere-intersectT/radius-0", tn << " radius-0 sphere at " << vs (cen) << ", line " << vs (l.pos) << "+t" << vs (l.dir) << ": intersectT " << okT << " intersect " << ok << ", expected false");
+            if (okT) VP_REQUIRE (c, std::isfinite (t) && (!ok || fin3 (ip)), "sphere-intersectT/radius-0", tn << " radius-0 sphere at " << vs (cen) << ", line " << vs (l.pos) << "+t" << vs (l.dir) << ": t = " << t << " point " << vs (ip));
+            if (expect) VP_REQUIRE (c, okT && ok && t == (T) k && eq3 (ip, cen), "sphere-intersectT/radius-0-axis-hit-exact", tn << " radius-0 sphere at " << vs (cen) << ", line " << vs (l.pos) << "+t" << vs (l.dir) << " through it: intersectT " << okT << " t = " << t << ", intersect " << ok << " point " << vs (ip) << "; the centre is at t = " << k);
+            break;
+        }
+        case CO_ORIGIN_AT_CENTRE: // r > 0, origin exactly at the centre: t = r in every direction
+        {
+            V   cen = lat_pt<T> (s);
+            int rn  = (int) s.range (1, 64);
+            V   dir = any_unit<T> (c);
+            T   rad = (T) rn / (T) 8;
+            Line3<T> l;
+            l.pos = cen;
+            l.dir = dir;
+            Sphere3<T> sp (cen, rad);
+            VP_NOTE (c, tn << " sphere centre=" << vs (cen) << " r=" << rad << " line from the centre, dir " << vs (dir));
+            T    t = -7;
+            V    ip (7, 7, 7);
+            bool okT = sp.intersectT (l, t), ok = sp.intersect (l, ip);
+            VP_REQUIRE (c, okT && ok, "sphere-intersectT/origin-at-centre", tn << " sphere r = " << rad << " at " << vs (cen) << " from its centre: intersectT " << okT << ", intersect " << ok);
+            quad R = (quad) rad;
+            QG_CHK (c, "sphere-intersectT/origin-at-centre", qabs ((quad) t - R), eps * R, 4, tn << " sphere r = " << rad << " from its centre: t = " << t); // measured worst 0 units
+            QG_CHK (c, "sphere-intersect/origin-at-centre", qabs (len (q3 (ip) - q3 (cen)) - R), eps * (R + len (q3 (cen))), 4, tn << " sphere r = " << rad << " at " << vs (cen) << " from its centre, dir " << vs (dir) << ": point " << vs (ip)); // measured worst 0.73 units
+            break;
+        }
+        case CO_ORIGIN_ON_SURFACE: // |pos - centre|^2 - r^2 is exactly 0: t = 0 whatever the direction
+        {
+            static const int PY[12][4] = { { 1, 0, 0, 1 }, { 3, 4, 0, 5 }, { 1, 2, 2, 3 }, { 2, 3, 6, 7 }, { 4, 4, 7, 9 }, { 1, 4, 8, 9 }, { 2, 6, 9, 11 }, { 6, 6, 7, 11 }, { 3, 4, 12, 13 }, { 2, 10, 11, 15 }, { 5, 12, 0, 13 }, { 8, 9, 12, 17 } };
+            V   cen = lat_pt<T> (s);
+            int pi_ = (int) s.below (12);
+            int rot = (int) s.below (3);
+            int sgm = (int) s.below (8);
+            int e   = (int) s.range (-3, 3);
+            V   dir = any_unit<T> (c);
+            V   off;
+            for (int i = 0; i < 3; ++i)
+                off[(i + rot) % 3] = std::ldexp ((T) (PY[pi_][i] * (((sgm >> i) & 1) ? -1 : 1)), e);
+            T   rad = std::ldexp ((T) PY[pi_][3], e);
+            Line3<T> l;
+            l.pos = cen + off;
+            l.dir = dir;
+            Sphere3<T> sp (cen, rad);
+            VP_NOTE (c, tn << " sphere centre=" << vs (cen) << " r=" << rad << " line=" << vs (l.pos) << "+t" << vs (l.dir) << " (origin exactly on the surface)");
+            VP_REQUIRE (c, dot (q3 (l.pos) - q3 (cen), q3 (l.pos) - q3 (cen)) == (quad) rad * (quad) rad, "harness/lattice-not-exact", tn << " origin not exactly on the sphere (harness error)");
+            T    t = -7;
+            V    ip (7, 7, 7);
+            bool okT = sp.intersectT (l, t), ok = sp.intersect (l, ip);
+            VP_REQUIRE (c, ok == okT, "sphere-intersect-vs-intersectT", tn << " intersect returns " << ok << ", intersectT " << okT);
+            // within rounding: a ray that enters the sphere (dir.(pos-centre) <= -r/8) hits it; a returned t is finite,
+            // non-negative and one of the two roots 0, -2 dir.(pos-centre)
+            {
+                quad R = (quad) rad, hb = dot (q3 (dir), q3 (off)) / dot (q3 (dir), q3 (dir));
+                if (hb <= -R / 8) VP_REQUIRE (c, okT, "sphere-intersectT/origin-on-surface", tn << " sphere r = " << rad << " at " << vs (cen) << ", origin " << vs (l.pos) << " on it, dir " << vs (dir) << " pointing inwards: returned false");
+                if (okT)
+                {
+                    VP_REQUIRE (c, std::isfinite (t) && t >= 0 && fin3 (ip), "sphere-intersectT/origin-on-surface", tn << " sphere r = " << rad << " at " << vs (cen) << ", origin " << vs (l.pos) << " on it, dir " << vs (dir) << ": t = " << t << " point " << vs (ip));
+                    if (qabs (hb) >= R / 8) QG_CHK (c, "sphere-intersectT/origin-on-surface", qmin (qabs ((quad) t), qabs ((quad) t + 2 * hb)), eps * R * (1 + R / qabs (hb)), 16, tn << " sphere r = " << rad << " at " << vs (cen) << ", origin " << vs (l.pos) << " on it, dir " << vs (dir) << ": t = " << t << " is neither root 0, " << qstr (-2 * hb)); // measured worst 0 units
+                }
+            }
+            // exactly: |pos - centre|^2 - r^2 is 0 without rounding, so t = 0 whatever the direction (own keys: a
+            // differently rounded evaluation can lose the outward-pointing and tangent cases to the sign of a rounding error)
+            VP_REQUIRE (c, okT && t == 0, "sphere-intersectT/origin-on-surface-exact", tn << " sphere r = " << rad << " at " << vs (cen) << ", origin " << vs (l.pos) << " exactly on it, dir " << vs (dir) << ": returned " << okT << ", t = " << t << " (smallest non-negative parameter on the sphere: 0)");
+            VP_REQUIRE (c, ok && eq3 (ip, l.pos), "sphere-intersect/origin-on-surface-exact", tn << " sphere r = " << rad << " at " << vs (cen) << ", origin " << vs (l.pos) << " exactly on it: returned " << ok << ", point " << vs (ip));
+            break;
+        }
+        case CO_POINT_ON_LINE:
+        {
+            V   p0  = lat_pt<T> (s);
+            int cls = 0;
+            V   dir = any_unit<T> (c, &cls);
+            V   e   = lat_vec<T> (s, 4);
+            int m   = (int) s.range (-8, 8);
+            int qc  = (int) s.below (2);
+            Line3<T> l;
+            l.pos = p0;
+            l.dir = dir;
+            if (cls == 1) l = Line3<T> (p0, p0 + e); // through two lattice points
+            V q = p0;
+            if (qc == 1 && cls == 0) q = p0 + dir * (T) m;
+            if (qc == 1 && cls == 1) q = p0 + e * (T) m;
+            VP_NOTE (c, tn << " line=" << vs (l.pos) << "+t" << vs (l.dir) << " q=" << vs (q));
+            V cp   = l.closestPointTo (q);
+            T dist = l.distanceTo (q);
+            if (qc == 0 || cls == 0) // the origin, or a lattice point of an axis-parallel line: exact
+            {
+                VP_REQUIRE (c, eq3 (cp, q), "line-closestPointTo-point/point-of-the-line", tn << " closestPointTo(" << vs (q) << ") = " << vs (cp) << " for line " << vs (l.pos) << "+t" << vs (l.dir));
+                VP_REQUIRE (c, dist == 0, "line-distanceTo-point/point-of-the-line", tn << " distanceTo(" << vs (q) << ") = " << dist << " for line " << vs (l.pos) << "+t" << vs (l.dir));
+            }
+            else
+            {
+                quad S = len (q3 (q) - q3 (p0)) + len (q3 (p0)) + len (q3 (q)) + (quad) 1e-30;
+                for (int i = 0; i < 3; ++i)
+                    QG_CHK (c, "line-closestPointTo-point/lattice-point-of-the-line", qabs ((quad) cp[i] - (quad) q[i]), eps * S, 8, tn << " closestPointTo(" << vs (q) << ")[" << i << "] = " << cp[i] << " for the line through " << vs (p0) << " and " << vs (p0 + e)); // measured worst 0.94 units
+                QG_CHK (c, "line-distanceTo-point/lattice-point-of-the-line", qabs ((quad) dist), eps * S, 8, tn << " distanceTo(" << vs (q) << ") = " << dist << " for the line through " << vs (p0) << " and " << vs (p0 + e)); // measured worst 1.0 units
+            }
+            break;
+        }
+        case CO_LINES_COMMON_POINT:
+        {
+            V   X   = lat_pt<T> (s);
+            int lc  = (int) s.below (3);
+            V   d1  = any_unit<T> (c);
+            V   d2  = any_unit<T> (c);
+            int ax  = (int) s.below (3);
+            int dj  = (int) s.below (2);
+            int a   = (int) s.range (-8, 8);
+            int b   = (int) s.range (-8, 8);
+            V   e1  = lat_vec<T> (s, 4);
+            V   e2  = lat_vec<T> (s, 4);
+            Line3<T> l1, l2;
+            bool     exact = true;
+            if (lc == 0) // the same origin, any two directions
+            {
+                l1.pos = l2.pos = X;
+                l1.dir = d1;
+                l2.dir = d2;
+            }
+            else if (lc == 1) // axis-parallel lines crossing at X, origins a and b steps away
+            {
+                int ax2 = (ax + 1 + dj) % 3;
+                l1.dir  = axis_vec<T> (ax, a < 0 ? -1 : 1);
+                l2.dir  = axis_vec<T> (ax2, b < 0 ? -1 : 1);
+                l1.pos  = X + axis_vec<T> (ax, 1) * (T) a;
+                l2.pos  = X + axis_vec<T> (ax2, 1) * (T) b;
+            }
+            else // lines through lattice points crossing at X
+            {
+                Q3 ce = cross (q3 (e1), q3 (e2));
+                if (ce.x == 0 && ce.y == 0 && ce.z == 0) e2 = e1.x != 0 ? V (e1.y + e1.z, -e1.x, -e1.x) : V (1, 0, 0); // parallel: take a perpendicular lattice vector
+                l1    = Line3<T> (X - e1 * (T) a, X - e1 * (T) (a - 1));
+                l2    = Line3<T> (X - e2 * (T) b, X - e2 * (T) (b - 1));
+                exact = false;
+            }
+            VP_NOTE (c, tn << " line1=" << vs (l1.pos) << "+t" << vs (l1.dir) << " line2=" << vs (l2.pos) << "+t" << vs (l2.dir) << " common point " << vs (X));
+            V    pa (7, 7, 7), pb (7, 7, 7);
+            bool ok   = closestPoints (l1, l2, pa, pb);
+            V    cp   = l1.closestPointTo (l2);
+            T    dist = l1.distanceTo (l2);
+            VP_REQUIRE (c, fin3 (cp) && std::isfinite (dist) && (!ok || (fin3 (pa) && fin3 (pb))), "lines-common-point/nonfinite", tn << " lines through " << vs (X) << ": closestPoints " << ok << " " << vs (pa) << " " << vs (pb) << ", closestPointTo " << vs (cp) << ", distanceTo " << dist);
+            Q3   CR  = cross (q3 (l1.dir), q3 (l2.dir));
+            bool par = CR.x == 0 && CR.y == 0 && CR.z == 0;
+            if (par) c.label (CO_LINES_PARALLEL);
+            if (exact)
+            {
+                if (!par) VP_REQUIRE (c, ok, "closestPoints/false-for-nonparallel", tn << " closestPoints returned false for lines crossing at " << vs (X));
+                if (ok) VP_REQUIRE (c, eq3 (pa, X) && eq3 (pb, X), "closestPoints/common-point", tn << " lines crossing exactly at " << vs (X) << ": closestPoints gives " << vs (pa) << " and " << vs (pb));
+                if (!par || lc == 0) VP_REQUIRE (c, eq3 (cp, X), "line-closestPointTo-line/common-point", tn << " lines crossing exactly at " << vs (X) << ": closestPointTo(line) = " << vs (cp));
+                VP_REQUIRE (c, dist == 0, "line-distanceTo-line/common-point", tn << " lines crossing exactly at " << vs (X) << ": distanceTo(line) = " << dist);
+            }
+            else
+            {
+                uint64_t lm = c.labelmask;
+                far_lines_check<T> (c, tn, l1, l2); // bounds of section 9c; the distance is 0 to rounding
+                c.labelmask = lm;
+            }
+            break;
+        }
+        case CO_POINT_ON_PLANE: // axis-aligned plane, lattice point exactly on it
+        {
+            int  ax  = (int) s.below (3);
+            bool ng  = s.coin ();
+            int  le  = (int) s.range (-3, 3);
+            int  how = (int) s.below (3);
+            V    A   = lat_pt<T> (s);
+            int  i1 = (int) s.range (-4, 4);
+            int  j1 = (int) s.range (-4, 4);
+            int  i2 = (int) s.range (-4, 4);
+            int  j2 = (int) s.range (-4, 4);
+            V    q   = lat_pt<T> (s);
+            V    dir = any_unit<T> (c);
+            int  k   = (int) s.range (-6, 6);
+            V    w   = lat_pt<T> (s);
+            bool ln  = s.coin ();
+            int  sg  = ng ? -1 : 1;
+            int  b = (ax + 1) % 3, cc = (ax + 2) % 3;
+            V    nn  = axis_vec<T> (ax, sg) * std::ldexp ((T) 1, le);
+            Plane3<T> P;
+            if (how == 0)
+                P = Plane3<T> (nn, A[ax] * (T) sg); // normal . x = sg x_ax = sg A_ax
+            else if (how == 1)
+                P = Plane3<T> (A, nn);
+            else
+            {
+                if (i1 * j2 - j1 * i2 == 0) i1 = 1, j1 = 0, i2 = 0, j2 = 1;
+                V B = A, C = A;
+                B[b] += (T) i1, B[cc] += (T) j1;
+                C[b] += (T) i2, C[cc] += (T) j2;
+                P = Plane3<T> (A, B, C);
+            }
+            q[ax] = A[ax];
+            VP_NOTE (c, tn << " plane (how " << how << ") normal=" << vs (P.normal) << " d=" << P.distance << " through " << vs (A) << "; q=" << vs (q) << " dir=" << vs (dir));
+            VP_REQUIRE (c, std::abs (P.normal[ax]) == 1 && P.normal[b] == 0 && P.normal[cc] == 0 && P.distance == P.normal[ax] * A[ax], "plane-set/axis-aligned", tn << " axis-aligned plane through " << vs (A) << " (how " << how << "): normal " << vs (P.normal) << " distance " << P.distance);
+            VP_REQUIRE (c, P.distanceTo (q) == 0, "plane-distanceTo/point-on-plane", tn << " distanceTo(" << vs (q) << ") = " << P.distanceTo (q) << " for plane " << vs (P.normal) << "," << P.distance);
+            VP_REQUIRE (c, eq3 (P.reflectPoint (q), q), "plane-reflectPoint/point-on-plane", tn << " reflectPoint(" << vs (q) << ") = " << vs (P.reflectPoint (q)) << " for plane " << vs (P.normal) << "," << P.distance);
+            {
+                V wi = w, wn (0, 0, 0);
+                wi[ax] = 0;      // in-plane vector: reflectVector = -v
+                wn[ax] = w[ax]; // along the normal: reflectVector = v
+                VP_REQUIRE (c, eq3 (P.reflectVector (wi), -wi), "plane-reflectVector/in-plane-vector", tn << " reflectVector(" << vs (wi) << ") = " << vs (P.reflectVector (wi)) << " for plane normal " << vs (P.normal));
+                VP_REQUIRE (c, eq3 (P.reflectVector (wn), wn), "plane-reflectVector/normal-vector", tn << " reflectVector(" << vs (wn) << ") = " << vs (P.reflectVector (wn)) << " for plane normal " << vs (P.normal));
+            }
+            {
+                // a line from q: t = 0, the point is q (false if the direction lies in the plane)
+                Line3<T> l;
+                l.pos = q;
+                l.dir = dir;
+                V    ip (7, 7, 7);
+                T    t  = 7;
+                bool ok = P.intersect (l, ip), okT = P.intersectT (l, t);
+                VP_REQUIRE (c, ok == okT && ok == (dir[ax] != 0), "plane-intersect/origin-on-plane", tn << " line from " << vs (q) << " on the plane, dir " << vs (dir) << ": intersect " << ok << ", intersectT " << okT);
+                if (ok) VP_REQUIRE (c, t == 0 && eq3 (ip, q), "plane-intersect/origin-on-plane", tn << " line from " << vs (q) << " on the plane, dir " << vs (dir) << ": t = " << t << ", point " << vs (ip));
+                // the axis-parallel line through q from k steps away
+                l.pos     = q - axis_vec<T> (ax, 1) * (T) k;
+                l.dir     = axis_vec<T> (ax, ln ? -1 : 1);
+                ok        = P.intersect (l, ip);
+                okT       = P.intersectT (l, t);
+                VP_REQUIRE (c, ok && okT && t == (T) k * l.dir[ax] && eq3 (ip, q), "plane-intersect/axis-line", tn << " line " << vs (l.pos) << "+t" << vs (l.dir) << " against plane " << vs (P.normal) << "," << P.distance << ": " << ok << " " << okT << " t = " << t << " point " << vs (ip));
+            }
+            break;
+        }
+        case CO_LATTICE_PLANE: // plane through three lattice points, query point A + i e1 + j e2 exactly on it
+        {
+            V   A  = lat_pt<T> (s);
+            V   e1 = lat_vec<T> (s, 4);
+            V   e2 = lat_vec<T> (s, 4);
+            int i  = (int) s.range (-3, 3);
+            int j  = (int) s.range (-3, 3);
+            V   dir = any_unit<T> (c);
+            Q3  CR = cross (q3 (e1), q3 (e2));
+            if (CR.x == 0 && CR.y == 0 && CR.z == 0) e2 = e1.x != 0 ? V (e1.y + e1.z, -e1.x, -e1.x) : V (1, 0, 0);
+            V         B = A + e1, C = A + e2, q = A + e1 * (T) i + e2 * (T) j;
+            Plane3<T> P (A, B, C);
+            VP_NOTE (c, tn << " plane through " << vs (A) << " " << vs (B) << " " << vs (C) << " = " << vs (P.normal) << "," << P.distance << "; q=" << vs (q) << " dir=" << vs (dir));
+            Q3   F1 = q3 (e1), F2 = q3 (e2), Nx = cross (F1, F2), Ns = q3 (P.normal);
+            quad condN = len (F1) * len (F2) / len (Nx);
+            quad unit_ = eps * (adot (Ns, q3 (q)) + qabs ((quad) P.distance) + (len (F1) + len (F2)) * condN * (1 + std::abs (i) + std::abs (j)));
+            T    dq    = P.distanceTo (q);
+            QG_CHK (c, "plane-distanceTo/lattice-point-of-the-plane", qabs ((quad) dq), unit_, 4, tn << " distanceTo(" << vs (q) << ") = " << dq << " for the plane through " << vs (A) << " " << vs (B) << " " << vs (C)); // measured worst 0.31 units
+            V r = P.reflectPoint (q);
+            for (int m = 0; m < 3; ++m)
+                QG_CHK (c, "plane-reflectPoint/lattice-point-of-the-plane", qabs ((quad) r[m] - (quad) q[m]), unit_, 4, tn << " reflectPoint(" << vs (q) << ")[" << m << "] = " << r[m]); // measured worst 0.63 units
+            Line3<T> l;
+            l.pos = q;
+            l.dir = dir;
+            V    ip (7, 7, 7);
+            T    t  = 7;
+            bool ok = P.intersect (l, ip), okT = P.intersectT (l, t);
+            VP_REQUIRE (c, ok == okT, "plane-intersect-vs-intersectT", tn << " intersect returns " << ok << ", intersectT " << okT);
+            if (ok)
+            {
+                quad nd = dot (Ns, q3 (dir));
+                VP_REQUIRE (c, std::isfinite (t) && fin3 (ip), "plane-intersect/origin-on-plane-nonfinite", tn << " line from " << vs (q) << " (a point of the plane), dir " << vs (dir) << ": t = " << t << " point " << vs (ip));
+                // t n.dir = -(n.pos - d): the signed distance of the origin, 0 to the rounding of the plane
+                QG_CHK (c, "plane-intersectT/origin-on-lattice-plane", qabs ((quad) t * nd), unit_, 4, tn << " line from " << vs (q) << " (a point of the plane), dir " << vs (dir) << ": t = " << t << ", normal.dir = " << (double) nd); // measured worst 0.31 units
+            }
+            break;
+        }
+        case CO_TRI_VERTEX_EDGE:
+        {
+            // right triangle with axis-parallel legs, right angle at v1 (the two edges the library normalises are
+            // axis-parallel: every quantity is exact), legs 4, 6 or 8 long
+            int  ax  = (int) s.below (3);
+            V    X   = lat_pt<T> (s);
+            int  la  = 4 + 2 * (int) s.below (3);
+            int  lb  = 4 + 2 * (int) s.below (3);
+            bool na  = s.coin ();
+            bool nb  = s.coin ();
+            int  hc  = (int) s.below (9);
+            int  m   = (int) s.range (1, 3);
+            bool ng  = s.coin ();
+            int  k   = (int) s.range (0, 6);
+            bool obl = s.chance (64);
+            V    e   = lat_vec<T> (s, 3);
+            int  b = (ax + 1) % 3, cc = (ax + 2) % 3;
+            int  sa = na ? -1 : 1, sb = nb ? -1 : 1;
+            V    v0 = X, v1 = X, v2;
+            v1[b] += (T) (sa * la);
+            v2 = v1;
+            v2[cc] += (T) (sb * lb);
+            V   H;
+            int hl;
+            switch (hc)
+            {
+                case 0: H = v0, hl = CO_TRI_VERTEX; break;
+                case 1: H = v1, hl = CO_TRI_VERTEX; break;
+                case 2: H = v2, hl = CO_TRI_VERTEX; break;
+                case 3: H = v0, H[b] += (T) (sa * m), hl = CO_TRI_EDGE; break;       // on v0 v1
+                case 4: H = v1, H[cc] += (T) (sb * m), hl = CO_TRI_EDGE; break;      // on v1 v2
+                case 5: H = (v0 + v2) * (T) 0.5, hl = CO_TRI_EDGE; break;            // on v2 v0
+                case 6: H = v1, H[b] -= (T) sa, H[cc] += (T) sb, hl = CO_TRI_INTERIOR; break;
+                case 7: H = v0, H[b] -= (T) (sa * m), hl = CO_TRI_OUTSIDE; break;
+                default: H = v0, H[cc] += (T) (sb * m), hl = CO_TRI_OUTSIDE; break;
+            }
+            c.label (hl);
+            int      sg = ng ? -1 : 1;
+            Line3<T> l;
+            if (!obl)
+            {
+                l.pos = H - axis_vec<T> (ax, sg) * (T) k;
+                l.dir = axis_vec<T> (ax, sg);
+                if (k == 0) c.label (CO_TRI_ORIGIN_ON_TRIANGLE);
+            }
+            else
+            {
+                if (e[ax] == 0) e[ax] = 1;
+                l = Line3<T> (H - e, H);
+                c.label (CO_TRI_OBLIQUE);
+            }
+            VP_NOTE (c, tn << " v0=" << vs (v0) << " v1=" << vs (v1) << " v2=" << vs (v2) << " line=" << vs (l.pos) << "+t" << vs (l.dir) << " through " << vs (H) << " (class " << hc << ")");
+            V    pt (7, 7, 7), bary (7, 7, 7);
+            bool front = false;
+            bool hit   = intersect (l, v0, v1, v2, pt, bary, front);
+            Q3   A = q3 (v0), B = q3 (v1), Cq = q3 (v2), Nt = cross (B - A, Cq - A), Hq = q3 (H);
+            quad nn = dot (Nt, Nt);
+            quad bx[3] = { dot (cross (B - Hq, Cq - Hq), Nt) / nn, dot (cross (Cq - Hq, A - Hq), Nt) / nn, dot (cross (A - Hq, B - Hq), Nt) / nn };
+            quad bmin  = qmin (bx[0], qmin (bx[1], bx[2]));
+            if (hit)
+            {
+                VP_REQUIRE (c, fin3 (pt) && fin3 (bary), "tri-intersect/nonfinite", tn << " intersect() returned true with pt " << vs (pt) << " barycentric " << vs (bary));
+                // whatever the line: barycentrics within [0,1] and reproducing pt (the sizes here are <= 24)
+                quad tol = (obl ? 64 : 4) * eps;
+                for (int i = 0; i < 3; ++i)
+                    VP_REQUIRE (c, (quad) bary[i] >= -tol && (quad) bary[i] <= 1 + tol, "tri-intersect/barycentric-out-of-range", tn << " intersect() returned true with barycentric " << vs (bary));
+                Q3 rep = A * (quad) bary.x + B * (quad) bary.y + Cq * (quad) bary.z;
+                for (int i = 0; i < 3; ++i)
+                    QG_CHK (c, "tri-intersect/barycentric-reproduces-pt/lattice", qabs (rep[i] - (quad) pt[i]), eps * 32 * (obl ? 16 : 1), 4, tn << " v0*b.x+v1*b.y+v2*b.z [" << i << "] = " << qstr (rep[i]) << " but pt = " << pt[i]); // measured worst 0.13 units
+            }
+            if (!obl)
+            {
+                if (bmin > 0)
+                    VP_REQUIRE (c, hit, "tri-intersect/result", tn << " intersect() returned false for the axis-parallel line through the interior lattice point " << vs (H));
+                else if (bmin == 0)
+                    VP_REQUIRE (c, hit, "tri-intersect/exact-boundary-miss", tn << " intersect() returned false for the axis-parallel line through " << vs (H) << ", exactly on the boundary (barycentrics " << qstr (bx[0]) << " " << qstr (bx[1]) << " " << qstr (bx[2]) << "; 'between zero and one' is documented as inside)");
+                else
+                    VP_REQUIRE (c, !hit, "tri-intersect/result", tn << " intersect() returned true for the axis-parallel line through the outside lattice point " << vs (H));
+                if (hit)
+                {
+                    VP_REQUIRE (c, eq3 (pt, H), "tri-intersect/point/lattice", tn << " pt = " << vs (pt) << " for the axis-parallel line through " << vs (H));
+                    for (int i = 0; i < 3; ++i)
+                        QG_CHK (c, "tri-intersect/barycentric/lattice", qabs ((quad) bary[i] - bx[i]), eps, 4, tn << " barycentric[" << i << "] = " << bary[i] << " exact " << qstr (bx[i])); // measured worst 0.33 units
+                    bool fx = dot (q3 (l.dir), cross (Cq - B, B - A)) < 0;
+                    VP_REQUIRE (c, front == fx, "tri-intersect/front", tn << " front = " << front << " but dir.((v2-v1)x(v1-v0)) = " << qstr (dot (q3 (l.dir), cross (Cq - B, B - A))));
+                }
+            }
+            break;
+        }
+        case CO_CLOSEST_VERTEX:
+        {
+            int  N  = 2 + (int) s.below (4); // 2,3,4: ImathVecAlgo closestVertex (p); 5: ImathLineAlgo closestVertex (line)
+            if (N == 2) coincide_vec<Vec2<T>, T, 2> (c, sizeof (T) == 8 ? "V2d" : "V2f", kind);
+            if (N == 3) coincide_vec<Vec3<T>, T, 3> (c, sizeof (T) == 8 ? "V3d" : "V3f", kind);
+            if (N == 4) coincide_vec<Vec4<T>, T, 4> (c, sizeof (T) == 8 ? "V4d" : "V4f", kind);
+            if (N == 5)
+            {
+                V   v[3];
+                v[0]    = lat_pt<T> (s);
+                v[1]    = lat_pt<T> (s);
+                v[2]    = lat_pt<T> (s);
+                int wh  = (int) s.below (3);
+                int cls = 0;
+                V   dir = any_unit<T> (c, &cls);
+                int m   = (int) s.range (-6, 6);
+                Line3<T> l;
+                l.dir = dir;
+                l.pos = v[wh];
+                if (cls == 0) l.pos = v[wh] - dir * (T) m; // the vertex is m steps along an axis-parallel line
+                VP_NOTE (c, tn << " closestVertex(" << vs (v[0]) << "," << vs (v[1]) << "," << vs (v[2]) << "; line " << vs (l.pos) << "+t" << vs (l.dir) << " through vertex " << wh << ")");
+                V    cv = closestVertex (v[0], v[1], v[2], l);
+                int  which = -1;
+                quad d2[3], pm = len (q3 (l.pos));
+                Q3   Du = unit (q3 (l.dir));
+                for (int k = 0; k < 3; ++k)
+                {
+                    Q3 a  = q3 (v[k]) - q3 (l.pos);
+                    d2[k] = dot (cross (a, Du), cross (a, Du));
+                    pm    = qmax (pm, len (q3 (v[k])));
+                    if (eq3 (cv, v[k]) && (which < 0 || d2[k] < d2[which])) which = k;
+                }
+                VP_REQUIRE (c, which >= 0, "closestVertex-line/not-a-vertex", tn << " closestVertex(line) returned " << vs (cv) << " which is none of the vertices");
+                // vertex wh is on the line (exactly: its computed distance is 0): the answer is at distance 0 up to the slack of section 6
+                quad slack = 4 * eps * (d2[which] + pm * sqrtq (d2[which])) + (quad) 1e-300;
+                VP_REQUIRE (c, d2[which] <= slack, "closestVertex-line/vertex-on-the-line", tn << " closestVertex(line) = vertex " << which << " at squared distance " << qstr (d2[which]) << " although vertex " << wh << " lies on the line");
+            }
+            break;
+        }
+        case CO_ROTATE_AXIS_POINT: // a point of the axis stays where it is, whatever the angle; angle 0 moves nothing
+        {
+            V      p0  = lat_pt<T> (s);
+            int    cls = 0;
+            V      dir = any_unit<T> (c, &cls);
+            int    m   = (int) s.range (-6, 6);
+            int    ac  = (int) s.below (3);
+            int    am  = (int) s.range (-4, 4);
+            double au  = s.uniform (-6.3, 6.3);
+            bool   zero = s.chance (64);
+            V      g   = lat_pt<T> (s);
+            T      ang = ac == 0 ? (T) ((double) am * 1.5707963267948966) : (T) au;
+            Line3<T> l;
+            l.pos = p0;
+            l.dir = dir;
+            V p = p0;
+            if (cls == 0) p = p0 + dir * (T) m;
+            if (zero) p = g, ang = 0; // any point, angle 0
+            VP_NOTE (c, tn << " rotatePoint(" << vs (p) << ", line " << vs (l.pos) << "+t" << vs (l.dir) << ", " << ang << ")");
+            V    r = rotatePoint (p, l, ang);
+            quad S = len (q3 (p)) + len (q3 (p0)) + len (q3 (p) - q3 (p0)) + (quad) 1e-300;
+            VP_REQUIRE (c, fin3 (r), (zero ? "rotatePoint/angle-0-nonfinite" : "rotatePoint/point-of-the-axis-nonfinite"), tn << " rotatePoint(" << vs (p) << ", line " << vs (l.pos) << "+t" << vs (l.dir) << ", " << ang << ") = " << vs (r));
+            for (int i = 0; i < 3; ++i)
+                QG_CHK (c, (zero ? "rotatePoint/angle-0" : "rotatePoint/point-of-the-axis"), qabs ((quad) r[i] - (quad) p[i]), eps * S, 12, tn << " rotatePoint(" << vs (p) << ", line " << vs (l.pos) << "+t" << vs (l.dir) << ", " << ang << ")[" << i << "] = " << r[i]); // measured worst 0 units (point of the axis), 0.39 units (angle 0)
+            break;
+        }
+        default: // CO_VECALGO
+        {
+            int N = 2 + (int) s.below (3);
+            if (N == 2) coincide_vec<Vec2<T>, T, 2> (c, sizeof (T) == 8 ? "V2d" : "V2f", kind);
+            if (N == 3) coincide_vec<Vec3<T>, T, 3> (c, sizeof (T) == 8 ? "V3d" : "V3f", kind);
+            if (N == 4) coincide_vec<Vec4<T>, T, 4> (c, sizeof (T) == 8 ? "V4d" : "V4f", kind);
+            break;
+        }
+    }
+}
+#define C15_CO_RULE "one of 12 exact coincidences per case, on lattice data (integers / eighths up to 8, axis-aligned or quad-normalised lattice or random unit directions): radius-0 sphere (constructed, default-constructed, circumscribe of a one-point box) hit from its centre and along axis-parallel lines; origin exactly at the centre of a sphere; origin exactly on the surface (integer vectors of integer length); query point = origin / lattice point of a line; two lines through a common lattice point (same origin, axis-parallel, through lattice points); lattice points of axis-aligned and lattice planes (distanceTo, reflectPoint, reflectVector, line from the point); axis-parallel and oblique lines through vertices / edge points / interior / outside lattice points of a right triangle with axis-parallel legs; closestVertex of a vertex (Vec2/3/4 and line form); rotatePoint of a point of the axis / by angle 0; project/orthogonal/reflect of 0, s, m s; expected values are exact (t = 0, distance 0, the point itself) wherever the arithmetic is, else the bounds of sections 1-6; all cases non-trivial"
+VP_RANDOM (coincide_f, 150000, 1500000, C15_CO_RULE) { coincide_case<float> (c, "float"); }
+VP_LABELS (coincide_f, C15_CO_LABELS)
+VP_REQUIRE_LABELS (coincide_f, C15_CO_LABELS)
+VP_RANDOM (coincide_d, 150000, 1500000, C15_CO_RULE) { coincide_case<double> (c, "double"); }
+VP_LABELS (coincide_d, C15_CO_LABELS)
+VP_REQUIRE_LABELS (coincide_d, C15_CO_LABELS)
+
+// =====================================================================================
+// 13. An out-parameter that IS a member of one of the inputs: plane.intersect (ray, ray.pos) ("advance the ray to the
+//     plane"), closestPoints (l1, l2, l1.pos, l2.pos), sphere.intersect (l, sphere.center), l.set (l.pos, target) ...
+//     The inputs are taken by const reference and the outputs by reference of the same type, so such calls need no
+//     cast.  Demanded: the same return value and bit-identical outputs as the same call with separate output
+//     objects.  Both calls go through one noinline wrapper per library function (the same machine code, compiled
+//     without knowledge of the aliasing), so the comparison is between two calls of the same function in the same
+//     binary.  Asserted are the combinations that agree on the unchanged tree (measured, 20000 random cases per
+//     type, all three binaries); the ones that do not are listed here and NOT asserted:
+//       closestPoints (l1, l2, point1, point2) with point1 = l2.pos or l2.dir (point1 is written before line2 is
+//         evaluated; every point2);  triangle intersect () with pt = line.dir, v0, v1 or v2, or barycentric =
+//         line.dir, v0 or v1 (pt and barycentric.z are written before these inputs are read for the last time);
+//       Line3::set (x, l.pos), set (l.dir, l.pos) (pos is assigned first);  Plane3::set (p.normal as the point, n),
+//       set (p.normal, x, y) as the first point (normal is assigned before the distance is formed).
+// =====================================================================================
+#if defined(__GNUC__) && !defined(__clang__)
+#define C15_NI __attribute__ ((noinline, noclone))
+#else
+#define C15_NI __attribute__ ((noinline))
+#endif
+template <class T> struct LibCall
+{
+    typedef Vec3<T>    V;
+    typedef Line3<T>   L;
+    typedef Plane3<T>  P;
+    typedef Sphere3<T> S;
+    static C15_NI bool plane_intersect (const P& p, const L& l, V& out) { return p.intersect (l, out); }
+    static C15_NI bool plane_intersectT (const P& p, const L& l, T& t) { return p.intersectT (l, t); }
+    static C15_NI bool sphere_intersect (const S& sp, const L& l, V& out) { return sp.intersect (l, out); }
+    static C15_NI bool sphere_intersectT (const S& sp, const L& l, T& t) { return sp.intersectT (l, t); }
+    static C15_NI bool closest_points (const L& a, const L& b, V& o1, V& o2) { return closestPoints (a, b, o1, o2); }
+    static C15_NI bool tri (const L& l, const V& v0, const V& v1, const V& v2, V& pt, V& bary, bool& front) { return intersect (l, v0, v1, v2, pt, bary, front); }
+    static C15_NI void line_set (L& l, const V& a, const V& b) { l.set (a, b); }
+    static C15_NI void plane_set_nd (P& p, const V& n, T d) { p.set (n, d); }
+    static C15_NI void plane_set_pn (P& p, const V& a, const V& n) { p.set (a, n); }
+    static C15_NI void plane_set3 (P& p, const V& a, const V& b, const V& c) { p.set (a, b, c); }
+    static C15_NI V    line_eval (const L& l, T t) { return l (t); }
+    static C15_NI V    cpt_point (const L& l, const V& q) { return l.closestPointTo (q); }
+    static C15_NI V    cpt_line (const L& l, const L& m) { return l.closestPointTo (m); }
+    static C15_NI T    dist_line (const L& l, const L& m) { return l.distanceTo (m); }
+    static C15_NI V    reflect_point (const P& p, const V& q) { return p.reflectPoint (q); }
+    static C15_NI V    reflect_vector (const P& p, const V& q) { return p.reflectVector (q); }
+    static C15_NI V    closest_vertex_line (const V& a, const V& b, const V& c, const L& l) { return closestVertex (a, b, c, l); }
+    static C15_NI V    closest_vertex (const V& a, const V& b, const V& c, const V& p) { return closestVertex (a, b, c, p); }
+    static C15_NI V    rotate_point (const V& p, const L& l, T a) { return rotatePoint (p, l, a); }
+    static C15_NI V    project_ (const V& s, const V& t) { return project (s, t); }
+    static C15_NI V    reflect_ (const V& s, const V& t) { return reflect (s, t); }
+};
+enum
+{
+    AL_PLANE_HIT,
+    AL_SPHERE_HIT,
+    AL_SPHERE_MISS,
+    AL_TRI_HIT,
+    AL_TRI_MISS,
+    AL_CP_TRUE
+};
+template <class T> static void alias_case (vp::Ctx& c, const char* tn)
+{
+    typedef Vec3<T>    V;
+    typedef LibCall<T> F;
+    vp::Src&           s = c.s;
+    // ---- a configuration in general position: line, plane, sphere and triangle in front of the line (1/4 missed)
+    V lp = seq_pt<T> (s);
+    V lq = seq_pt<T> (s);
+    if (lq == lp) lq.x += 1;
+    const Line3<T> L (lp, lq);
+    V         pp = seq_pt<T> (s);
+    V         pn = gen_offset<T> (s);
+    const Plane3<T> Pl (pp, pn);
+    double    ts  = s.uniform (0.5, 6);
+    double    rr  = s.uniform (0.25, 3);
+    Q3        so  = seq_dir (s);
+    double    sf  = s.uniform (0, 0.9);
+    bool      smiss = s.chance (64);
+    const Sphere3<T> Sp (rnd<T> (q3 (L ((T) ts)) + so * ((quad) rr * (smiss ? (quad) 1.5 : (quad) sf))), (T) rr);
+    double    tt  = s.uniform (0.5, 6);
+    V         eu  = gen_offset<T> (s);
+    V         ev  = gen_offset<T> (s);
+    bool      tmiss = s.chance (64);
+    V         H   = L ((T) tt);
+    if ((eu % ev).length2 () == 0) ev = V (eu.y, eu.z, -eu.x) + V (1, 2, 3);
+    V         V0 = H - (eu + ev) / (T) 3 + (tmiss ? (eu + ev) * (T) 2 : V (0, 0, 0)), V1 = V0 + eu, V2 = V0 + ev;
+    V         l2p = seq_pt<T> (s);
+    V         l2q = seq_pt<T> (s);
+    if (l2q == l2p) l2q.y += 1;
+    const Line3<T> L2 (l2p, l2q);
+    V         q   = seq_pt<T> (s);
+    V         x   = seq_pt<T> (s);
+    V         y   = seq_pt<T> (s);
+    double    au  = s.uniform (-6.3, 6.3);
+    double    tu  = s.uniform (-4, 4);
+    int       ix  = (int) s.below (3);
+    T         dn  = gen::nice<T> (s);
+    if (x == L.pos || x == L.dir) x.z += 1;
+    c.nt (true);
+    VP_NOTE (c, tn << " line=" << vs (L.pos) << "+t" << vs (L.dir) << " line2=" << vs (L2.pos) << "+t" << vs (L2.dir) << " plane=" << vs (Pl.normal) << "," << Pl.distance << " sphere=" << vs (Sp.center) << ",r=" << Sp.radius << " triangle=" << vs (V0) << " " << vs (V1) << " " << vs (V2) << " q=" << vs (q) << " x=" << vs (x) << " y=" << vs (y) << " angle=" << au << " t=" << tu << " slot=" << ix);
+#define C15_AL(key, cond, what, got) VP_REQUIRE (c, cond, key, tn << " " << what << " differs from the same call with a separate output object: got " << got)
+    // ---- Plane3::intersect / intersectT
+    {
+        V    o (7, 7, 7);
+        bool r = F::plane_intersect (Pl, L, o);
+        if (r) c.label (AL_PLANE_HIT);
+        {
+            Line3<T> l  = L;
+            bool     r2 = F::plane_intersect (Pl, l, l.pos);
+            C15_AL ("plane-intersect/out-is-line-pos", r2 == r && same3 (l.pos, r ? o : L.pos) && same3 (l.dir, L.dir), "plane.intersect(line, line.pos)", r2 << " " << vs (l.pos) << ", separate: " << r << " " << vs (o));
+        }
+        {
+            Line3<T> l  = L;
+            bool     r2 = F::plane_intersect (Pl, l, l.dir);
+            C15_AL ("plane-intersect/out-is-line-dir", r2 == r && same3 (l.dir, r ? o : L.dir) && same3 (l.pos, L.pos), "plane.intersect(line, line.dir)", r2 << " " << vs (l.dir) << ", separate: " << r << " " << vs (o));
+        }
+        {
+            Plane3<T> p  = Pl;
+            bool      r2 = F::plane_intersect (p, L, p.normal);
+            C15_AL ("plane-intersect/out-is-own-normal", r2 == r && same3 (p.normal, r ? o : Pl.normal) && same<T> (p.distance, Pl.distance), "plane.intersect(line, plane.normal)", r2 << " " << vs (p.normal) << ", separate: " << r << " " << vs (o));
+        }
+        T    t0 = 7;
+        bool rt = F::plane_intersectT (Pl, L, t0);
+        {
+            Line3<T> l  = L;
+            bool     r2 = F::plane_intersectT (Pl, l, l.pos[ix]);
+            C15_AL ("plane-intersectT/out-is-input-member", r2 == rt && (!rt || same<T> (l.pos[ix], t0)), "plane.intersectT(line, line.pos[i])", r2 << " " << l.pos[ix] << ", separate: " << rt << " " << t0);
+        }
+        {
+            Line3<T> l  = L;
+            bool     r2 = F::plane_intersectT (Pl, l, l.dir[ix]);
+            C15_AL ("plane-intersectT/out-is-input-member", r2 == rt && (!rt || same<T> (l.dir[ix], t0)), "plane.intersectT(line, line.dir[i])", r2 << " " << l.dir[ix] << ", separate: " << rt << " " << t0);
+        }
+        {
+            Plane3<T> p  = Pl;
+            bool      r2 = F::plane_intersectT (p, L, p.distance);
+            C15_AL ("plane-intersectT/out-is-input-member", r2 == rt && (!rt || same<T> (p.distance, t0)), "plane.intersectT(line, plane.distance)", r2 << " " << p.distance << ", separate: " << rt << " " << t0);
+        }
+        {
+            Plane3<T> p  = Pl;
+            bool      r2 = F::plane_intersectT (p, L, p.normal[ix]);
+            C15_AL ("plane-intersectT/out-is-input-member", r2 == rt && (!rt || same<T> (p.normal[ix], t0)), "plane.intersectT(line, plane.normal[i])", r2 << " " << p.normal[ix] << ", separate: " << rt << " " << t0);
+        }
+    }
+    // ---- Sphere3::intersect / intersectT
+    {
+        V    o (7, 7, 7);
+        bool r = F::sphere_intersect (Sp, L, o);
+        c.label (r ? AL_SPHERE_HIT : AL_SPHERE_MISS);
+        {
+            Line3<T> l  = L;
+            bool     r2 = F::sphere_intersect (Sp, l, l.pos);
+            C15_AL ("sphere-intersect/out-is-line-pos", r2 == r && same3 (l.pos, r ? o : L.pos) && same3 (l.dir, L.dir), "sphere.intersect(line, line.pos)", r2 << " " << vs (l.pos) << ", separate: " << r << " " << vs (o));
+        }
+        {
+            Line3<T> l  = L;
+            bool     r2 = F::sphere_intersect (Sp, l, l.dir);
+            C15_AL ("sphere-intersect/out-is-line-dir", r2 == r && same3 (l.dir, r ? o : L.dir) && same3 (l.pos, L.pos), "sphere.intersect(line, line.dir)", r2 << " " << vs (l.dir) << ", separate: " << r << " " << vs (o));
+        }
+        {
+            Sphere3<T> sp = Sp;
+            bool       r2 = F::sphere_intersect (sp, L, sp.center);
+            C15_AL ("sphere-intersect/out-is-own-center", r2 == r && same3 (sp.center, r ? o : Sp.center) && same<T> (sp.radius, Sp.radius), "sphere.intersect(line, sphere.center)", r2 << " " << vs (sp.center) << ", separate: " << r << " " << vs (o));
+        }
+        T    t0 = 7;
+        bool rt = F::sphere_intersectT (Sp, L, t0);
+        {
+            Line3<T> l  = L;
+            bool     r2 = F::sphere_intersectT (Sp, l, l.pos[ix]);
+            C15_AL ("sphere-intersectT/out-is-input-member", r2 == rt && (!rt || same<T> (l.pos[ix], t0)), "sphere.intersectT(line, line.pos[i])", r2 << " " << l.pos[ix] << ", separate: " << rt << " " << t0);
+        }
+        {
+            Line3<T> l  = L;
+            bool     r2 = F::sphere_intersectT (Sp, l, l.dir[ix]);
+            C15_AL ("sphere-intersectT/out-is-input-member", r2 == rt && (!rt || same<T> (l.dir[ix], t0)), "sphere.intersectT(line, line.dir[i])", r2 << " " << l.dir[ix] << ", separate: " << rt << " " << t0);
+        }
+        {
+            Sphere3<T> sp = Sp;
+            bool       r2 = F::sphere_intersectT (sp, L, sp.radius);
+            C15_AL ("sphere-intersectT/out-is-input-member", r2 == rt && (!rt || same<T> (sp.radius, t0)), "sphere.intersectT(line, sphere.radius)", r2 << " " << sp.radius << ", separate: " << rt << " " << t0);
+        }
+        {
+            Sphere3<T> sp = Sp;
+            bool       r2 = F::sphere_intersectT (sp, L, sp.center[ix]);
+            C15_AL ("sphere-intersectT/out-is-input-member", r2 == rt && (!rt || same<T> (sp.center[ix], t0)), "sphere.intersectT(line, sphere.center[i])", r2 << " " << sp.center[ix] << ", separate: " << rt << " " << t0);
+        }
+    }
+    // ---- closestPoints: point1 in { l1.pos, l1.dir, separate } x point2 in { l1.pos, l1.dir, l2.pos, l2.dir, separate }
+    {
+        V    a (7, 7, 7), b (7, 7, 7);
+        bool r = F::closest_points (L, L2, a, b);
+        if (r) c.label (AL_CP_TRUE);
+        static const char* const NM[5] = { "line1.pos", "line1.dir", "line2.pos", "line2.dir", "separate" };
+        static const int         I1[3] = { 0, 1, 4 };
+        for (int ii = 0; ii < 3; ++ii)
+            for (int j = 0; j < 5; ++j)
+            {
+                int i = I1[ii];
+                if (i == j) continue;
+                Line3<T> l1 = L, l2 = L2;
+                V        sa (7, 7, 7), sb (7, 7, 7);
+                V*       tg[5]  = { &l1.pos, &l1.dir, &l2.pos, &l2.dir, 0 };
+                const V  org[5] = { L.pos, L.dir, L2.pos, L2.dir, V (7, 7, 7) };
+                V*       o1 = i < 4 ? tg[i] : &sa;
+                V*       o2 = j < 4 ? tg[j] : &sb;
+                bool     r2 = F::closest_points (l1, l2, *o1, *o2);
+                bool     ok = r2 == r && same3 (*o1, r ? a : org[i]) && same3 (*o2, r ? b : org[j]);
+                for (int k = 0; k < 4; ++k)
+                    if (k != i && k != j && !same3 (*tg[k], org[k])) ok = false; // the other members are inputs only
+                bool        dir = i == 1 || j == 1 || j == 3;
+                const char* key = dir ? "closestPoints/out-is-line-dir" : (j == 0 ? "closestPoints/out-is-other-line-origin" : "closestPoints/out-is-own-origin");
+                C15_AL (key, ok, "closestPoints(line1, line2, " << NM[i] << ", " << NM[j] << ")", r2 << " " << vs (*o1) << " " << vs (*o2) << ", separate: " << r << " " << vs (a) << " " << vs (b));
+            }
+    }
+    // ---- triangle intersect (): pt = line.pos ("advance the ray to the hit"), barycentric = v2 / line.pos
+    {
+        V    pt (7, 7, 7), ba (7, 7, 7);
+        bool fr = false;
+        bool r  = F::tri (L, V0, V1, V2, pt, ba, fr);
+        c.label (r ? AL_TRI_HIT : AL_TRI_MISS);
+        static const char* const NM[3] = { "line.pos", "v2", "separate" };
+        static const int         CB[4][2] = { { 0, 2 }, { 0, 1 }, { 2, 0 }, { 2, 1 } }; // (pt, barycentric)
+        for (int k = 0; k < 4; ++k)
+        {
+            Line3<T> l = L;
+            V        v2 = V2, sp (7, 7, 7), sb (7, 7, 7);
+            V*       tg[3] = { &l.pos, &v2, 0 };
+            V*       o1 = CB[k][0] < 2 ? tg[CB[k][0]] : &sp;
+            V*       o2 = CB[k][1] < 2 ? tg[CB[k][1]] : &sb;
+            bool     f2 = false;
+            bool     r2 = F::tri (l, V0, V1, v2, *o1, *o2, f2);
+            bool     ok = r2 == r && (!r || (same3 (*o1, pt) && same3 (*o2, ba) && f2 == fr)) && same3 (l.dir, L.dir);
+            C15_AL ((k == 0 ? "tri-intersect/out-is-line-pos" : "tri-intersect/out-is-input-member"), ok, "intersect(line, v0, v1, v2, pt = " << NM[CB[k][0]] << ", barycentric = " << NM[CB[k][1]] << ", front)", r2 << " " << vs (*o1) << " " << vs (*o2) << " " << f2 << ", separate: " << r << " " << vs (pt) << " " << vs (ba) << " " << fr);
+        }
+    }
+    // ---- set () with an argument that is the object's own member
+    {
+        {
+            Line3<T> a = L, b = L;
+            V        t = L.pos;
+            F::line_set (a, t, x);
+            F::line_set (b, b.pos, x);
+            C15_AL ("line-set/argument-is-own-pos", same3 (a.pos, b.pos) && same3 (a.dir, b.dir), "line.set(line.pos, x) (re-aim the line)", vs (b.pos) << " " << vs (b.dir) << ", separate: " << vs (a.pos) << " " << vs (a.dir));
+        }
+        {
+            Line3<T> a = L, b = L;
+            V        t = L.dir;
+            F::line_set (a, t, x);
+            F::line_set (b, b.dir, x);
+            C15_AL ("line-set/argument-is-own-dir", same3 (a.pos, b.pos) && same3 (a.dir, b.dir), "line.set(line.dir, x)", vs (b.pos) << " " << vs (b.dir) << ", separate: " << vs (a.pos) << " " << vs (a.dir));
+        }
+        {
+            Line3<T> a = L, b = L;
+            V        t = L.dir;
+            F::line_set (a, x, t);
+            F::line_set (b, x, b.dir);
+            C15_AL ("line-set/argument-is-own-dir", same3 (a.pos, b.pos) && same3 (a.dir, b.dir), "line.set(x, line.dir)", vs (b.pos) << " " << vs (b.dir) << ", separate: " << vs (a.pos) << " " << vs (a.dir));
+        }
+        {
+            Line3<T> a = L, b = L;
+            V        t = L.pos, u = L.dir;
+            F::line_set (a, t, u);
+            F::line_set (b, b.pos, b.dir);
+            C15_AL ("line-set/argument-is-own-dir", same3 (a.pos, b.pos) && same3 (a.dir, b.dir), "line.set(line.pos, line.dir)", vs (b.pos) << " " << vs (b.dir) << ", separate: " << vs (a.pos) << " " << vs (a.dir));
+        }
+        {
+            Plane3<T> a = Pl, b = Pl;
+            V         t = Pl.normal;
+            F::plane_set_nd (a, t, dn);
+            F::plane_set_nd (b, b.normal, dn);
+            C15_AL ("plane-set/argument-is-own-normal", same3 (a.normal, b.normal) && same<T> (a.distance, b.distance), "plane.set(plane.normal, d) (renormalise)", vs (b.normal) << "," << b.distance << ", separate: " << vs (a.normal) << "," << a.distance);
+        }
+        {
+            Plane3<T> a = Pl, b = Pl;
+            V         t = Pl.normal;
+            F::plane_set_pn (a, x, t);
+            F::plane_set_pn (b, x, b.normal);
+            C15_AL ("plane-set/argument-is-own-normal", same3 (a.normal, b.normal) && same<T> (a.distance, b.distance), "plane.set(point, plane.normal)", vs (b.normal) << "," << b.distance << ", separate: " << vs (a.normal) << "," << a.distance);
+        }
+        {
+            Plane3<T> a = Pl, b = Pl;
+            V         t = Pl.normal;
+            F::plane_set3 (a, x, t, y);
+            F::plane_set3 (b, x, b.normal, y);
+            C15_AL ("plane-set3/argument-is-own-normal", same3 (a.normal, b.normal) && same<T> (a.distance, b.distance), "plane.set(x, plane.normal, y)", vs (b.normal) << "," << b.distance << ", separate: " << vs (a.normal) << "," << a.distance);
+            a = Pl, b = Pl;
+            F::plane_set3 (a, x, y, t);
+            F::plane_set3 (b, x, y, b.normal);
+            C15_AL ("plane-set3/argument-is-own-normal", same3 (a.normal, b.normal) && same<T> (a.distance, b.distance), "plane.set(x, y, plane.normal)", vs (b.normal) << "," << b.distance << ", separate: " << vs (a.normal) << "," << a.distance);
+        }
+    }
+    // ---- results returned by value and assigned to a member of an argument
+    {
+        T ang = (T) au, tp = (T) tu;
+        {
+            Line3<T> l = L;
+            V        r = F::cpt_point (L, q);
+            l.pos      = F::cpt_point (l, q);
+            C15_AL ("value-result-assigned-to-input-member", same3 (l.pos, r), "line.pos = line.closestPointTo(q)", vs (l.pos) << ", separate: " << vs (r));
+            l     = L;
+            l.dir = F::cpt_point (l, q);
+            C15_AL ("value-result-assigned-to-input-member", same3 (l.dir, r), "line.dir = line.closestPointTo(q)", vs (l.dir) << ", separate: " << vs (r));
+            l     = L;
+            r     = F::line_eval (L, tp);
+            l.pos = F::line_eval (l, tp);
+            C15_AL ("value-result-assigned-to-input-member", same3 (l.pos, r), "line.pos = line(t) (advance the ray)", vs (l.pos) << ", separate: " << vs (r));
+            l     = L;
+            r     = F::cpt_line (L, L2);
+            l.pos = F::cpt_line (l, L2);
+            C15_AL ("value-result-assigned-to-input-member", same3 (l.pos, r), "line.pos = line.closestPointTo(line2)", vs (l.pos) << ", separate: " << vs (r));
+            Line3<T> m = L2;
+            m.pos      = F::cpt_line (L, m);
+            C15_AL ("value-result-assigned-to-input-member", same3 (m.pos, r), "line2.pos = line.closestPointTo(line2)", vs (m.pos) << ", separate: " << vs (r));
+            l     = L;
+            r     = F::rotate_point (q, L, ang);
+            V pr  = q;
+            pr    = F::rotate_point (pr, L, ang);
+            l.pos = F::rotate_point (q, l, ang);
+            C15_AL ("value-result-assigned-to-input-member", same3 (pr, r) && same3 (l.pos, r), "p = rotatePoint(p, line, angle) / line.pos = rotatePoint(p, line, angle)", vs (pr) << " " << vs (l.pos) << ", separate: " << vs (r));
+            l     = L;
+            r     = F::closest_vertex_line (V0, V1, V2, L);
+            l.pos = F::closest_vertex_line (V0, V1, V2, l);
+            C15_AL ("value-result-assigned-to-input-member", same3 (l.pos, r), "line.pos = closestVertex(v0, v1, v2, line)", vs (l.pos) << ", separate: " << vs (r));
+            V w0 = V0;
+            w0   = F::closest_vertex_line (w0, V1, V2, L);
+            C15_AL ("value-result-assigned-to-input-member", same3 (w0, r), "v0 = closestVertex(v0, v1, v2, line)", vs (w0) << ", separate: " << vs (r));
+            r  = F::closest_vertex (V0, V1, V2, q);
+            w0 = V0;
+            w0 = F::closest_vertex (w0, V1, V2, q);
+            V qq = q;
+            qq   = F::closest_vertex (V0, V1, V2, qq);
+            C15_AL ("value-result-assigned-to-input-member", same3 (w0, r) && same3 (qq, r), "v0 = closestVertex(v0, v1, v2, p) / p = closestVertex(v0, v1, v2, p)", vs (w0) << " " << vs (qq) << ", separate: " << vs (r));
+        }
+        {
+            Plane3<T> p = Pl;
+            V         r = F::reflect_point (Pl, q);
+            p.normal    = F::reflect_point (p, q);
+            V qq        = q;
+            qq          = F::reflect_point (Pl, qq);
+            C15_AL ("value-result-assigned-to-input-member", same3 (p.normal, r) && same3 (qq, r), "plane.normal = plane.reflectPoint(q) / q = plane.reflectPoint(q)", vs (p.normal) << " " << vs (qq) << ", separate: " << vs (r));
+            p        = Pl;
+            r        = F::reflect_vector (Pl, x);
+            p.normal = F::reflect_vector (p, x);
+            C15_AL ("value-result-assigned-to-input-member", same3 (p.normal, r), "plane.normal = plane.reflectVector(v)", vs (p.normal) << ", separate: " << vs (r));
+            V sv = x, tv = y;
+            r    = F::project_ (x, y);
+            sv   = F::project_ (sv, y);
+            tv   = F::project_ (x, tv);
+            C15_AL ("value-result-assigned-to-input-member", same3 (sv, r) && same3 (tv, r), "s = project(s, t) / t = project(s, t)", vs (sv) << " " << vs (tv) << ", separate: " << vs (r));
+            sv = x, tv = y;
+            r  = F::reflect_ (x, y);
+            sv = F::reflect_ (sv, y);
+            tv = F::reflect_ (x, tv);
+            C15_AL ("value-result-assigned-to-input-member", same3 (sv, r) && same3 (tv, r), "s = reflect(s, t) / t = reflect(s, t)", vs (sv) << " " << vs (tv) << ", separate: " << vs (r));
+        }
+    }
+#undef C15_AL
+}
+#define C15_AL_LABELS "plane_hit", "sphere_hit", "sphere_missed", "triangle_hit", "triangle_missed", "closestPoints_true"
+#define C15_AL_RULE "a generic configuration (line, second line, plane, a sphere and a triangle in front of the line, each missed in 1/4 of the cases, points, angle); every function of the property with an out-parameter is called with the out-parameter aliasing a member of an input (line.pos, line.dir, plane.normal / distance, sphere.center / radius, a vertex, per slot for T& outputs) and with separate outputs, through the same noinline wrapper; set() overloads with their own members as arguments; by-value results assigned to members of the arguments; demanded: same return value, bit-identical outputs, untouched other members; all cases non-trivial"
+VP_RANDOM (alias_f, 60000, 600000, C15_AL_RULE) { alias_case<float> (c, "float"); }
+VP_LABELS (alias_f, C15_AL_LABELS)
+VP_REQUIRE_LABELS (alias_f, C15_AL_LABELS)
+VP_RANDOM (alias_d, 60000, 600000, C15_AL_RULE) { alias_case<double> (c, "double"); }
+VP_LABELS (alias_d, C15_AL_LABELS)
+VP_REQUIRE_LABELS (alias_d, C15_AL_LABELS)
+
+// =====================================================================================
+// 14. "Parallel lines are reported or handled rather than divided by zero": closestPoints, Line3::closestPointTo (line)
+//     and Line3::distanceTo (line) on exactly parallel / antiparallel / identical lines must raise neither
+//     FE_DIVBYZERO nor FE_INVALID.  The floating-point status flags are cleared, the library function is called
+//     through a volatile function pointer to a noinline wrapper (nothing can be moved across the flag operations, no
+//     value is known at compile time), the flags are read back.  The fp environment is per thread.
+//     Asserted when the stored directions are exactly parallel (cross product exactly 0, decided in quad) or when
+//     the denominator 1 - (d1.d2)^2 evaluates to exactly 0 in T.  Measured on the unchanged tree: all three
+//     functions are clean in all three binaries (g++ -O2, clang++ -O1 ASan/UBSan, g++ -O1 -mfma -mavx2), also for
+//     the nearly parallel pairs that are generated but not asserted.
+// =====================================================================================
+template <class T> struct ParCall
+{
+    typedef bool (*cp_t) (const Line3<T>&, const Line3<T>&, Vec3<T>&, Vec3<T>&);
+    typedef Vec3<T> (*cpl_t) (const Line3<T>&, const Line3<T>&);
+    typedef T (*dl_t) (const Line3<T>&, const Line3<T>&);
+    static cp_t volatile  cp;
+    static cpl_t volatile cpl;
+    static dl_t volatile  dl;
+};
+template <class T> typename ParCall<T>::cp_t volatile  ParCall<T>::cp  = &LibCall<T>::closest_points;
+template <class T> typename ParCall<T>::cpl_t volatile ParCall<T>::cpl = &LibCall<T>::cpt_line;
+template <class T> typename ParCall<T>::dl_t volatile  ParCall<T>::dl  = &LibCall<T>::dist_line;
+static inline std::string fe_names (int f)
+{
+    std::string r;
+    if (f & FE_DIVBYZERO) r += "FE_DIVBYZERO ";
+    if (f & FE_INVALID) r += "FE_INVALID ";
+    return r;
+}
+enum
+{
+    PF_AXIS,
+    PF_LATTICE_PAIRS,
+    PF_COPIED_DIR,
+    PF_IDENTICAL,
+    PF_NEAR_2J,
+    PF_ANTIPARALLEL,
+    PF_FAR_OFFSET,
+    PF_ASSERTED,
+    PF_DEN_ZERO,
+    PF_EXACT_PARALLEL_DEN_NONZERO,
+    PF_NOT_ASSERTED,
+    PF_CP_FALSE
+};
+template <class T> static void parallel_flags_case (vp::Ctx& c, const char* tn)
+{
+    typedef Vec3<T> V;
+    vp::Src&        s   = c.s;
+    int             cls = (int) s.below (5);
+    V               a   = lat_pt<T> (s);
+    V               b   = lat_pt<T> (s);
+    V               g   = seq_pt<T> (s);
+    V               dI  = lat_vec<T> (s, 4);
+    V               go  = gen_offset<T> (s);
+    int             l1c = (int) s.below (3);
+    static const int KS[12] = { 1, 3, 5, 6, 7, 9, 10, 11, 12, 13, 14, 15 };
+    int             k1  = KS[s.below (12)];
+    int             k2  = KS[s.below (12)];
+    bool            neg = s.coin ();
+    int             ax  = (int) s.below (3);
+    bool            on  = s.coin ();
+    double          tl  = s.uniform (-4, 4);
+    bool            gen2 = s.coin ();
+    int             j   = (int) s.range (FInfo<T>::mant / 2 - 3, FInfo<T>::mant + 3);
+    double          ju  = s.unit ();
+    double          ph  = s.uniform (0, 6.283);
+    bool            far = s.chance (64);
+    int             fe  = (int) s.range (4, sizeof (T) == 8 ? 40 : 20);
+    Line3<T>        l1, l2;
+    // the first line: axis-parallel, through two lattice points, through two generic points
+    if (l1c == 0 || cls == 0)
+    {
+        l1.pos = a;
+        l1.dir = axis_vec<T> (ax, 1);
+    }
+    else if (l1c == 1)
+        l1 = Line3<T> (a, a + dI * (T) k1);
+    else
+        l1 = Line3<T> (g, g + go);
+    V pos2 = gen2 ? seq_pt<T> (s) : b;
+    switch (cls)
+    {
+        case 0: // axis-parallel
+            l2.pos = pos2;
+            l2.dir = l1.dir;
+            c.label (PF_AXIS);
+            break;
+        case 1: // both from lattice point pairs p, p + k d with the same integer d: parallel before normalisation
+            l1 = Line3<T> (a, a + dI * (T) k1);
+            l2 = Line3<T> (b, b + dI * (T) k2);
+            c.label (PF_LATTICE_PAIRS);
+            break;
+        case 2: // the direction copied; second origin anywhere or on the first line
+            l2.pos = on ? l1 ((T) tl) : pos2;
+            l2.dir = l1.dir;
+            c.label (PF_COPIED_DIR);
+            break;
+        case 3: // the same line
+            l2 = l1;
+            c.label (PF_IDENTICAL);
+            break;
+        default: // at an angle 2^-j, j from digits/2 - 3 (the denominator rounds to 0 from about digits/2 on)
+        {
+            Q3 D1  = q3 (l1.dir);
+            l2.pos = pos2;
+            l2.dir = rnd<T> (unit (unit (D1) + perp_to (D1, (quad) ph) * (quad) std::ldexp (1.0 + ju, -j)));
+            c.label (PF_NEAR_2J);
+            break;
+        }
+    }
+    if (neg)
+    {
+        l2.dir = -l2.dir;
+        c.label (PF_ANTIPARALLEL);
+    }
+    if (far)
+    {
+        l2.pos = l2.pos * std::ldexp ((T) 1, fe);
+        c.label (PF_FAR_OFFSET);
+    }
+    if (!(l1.dir.length2 () > 0)) l1.dir = V (1, 0, 0);
+    if (!(l2.dir.length2 () > 0)) l2.dir = l1.dir;
+    VP_NOTE (c, tn << " class=" << cls << " line1=" << vs (l1.pos) << "+t" << vs (l1.dir) << " line2=" << vs (l2.pos) << "+t" << vs (l2.dir));
+    // exactly parallel stored directions (exact in quad), and the denominator as T arithmetic forms it
+    Q3   CR = cross (q3 (l1.dir), q3 (l2.dir));
+    bool exact_parallel = CR.x == 0 && CR.y == 0 && CR.z == 0;
+    volatile T px = l1.dir.x * l2.dir.x, py = l1.dir.y * l2.dir.y, pz = l1.dir.z * l2.dir.z;
+    volatile T sxy = px + py;
+    volatile T d12 = sxy + pz;
+    volatile T sq  = d12 * d12;
+    volatile T den = (T) 1 - sq;
+    bool       dzero = den == 0;
+    bool       asserted = exact_parallel || dzero;
+    c.label (asserted ? PF_ASSERTED : PF_NOT_ASSERTED);
+    if (dzero) c.label (PF_DEN_ZERO);
+    if (exact_parallel && !dzero) c.label (PF_EXACT_PARALLEL_DEN_NONZERO);
+    c.nt (asserted);
+    const int WATCH = FE_DIVBYZERO | FE_INVALID;
+    V         o1 (7, 7, 7), o2 (7, 7, 7);
+    std::feclearexcept (FE_ALL_EXCEPT);
+    bool ok = ParCall<T>::cp (l1, l2, o1, o2);
+    int  f1 = std::fetestexcept (WATCH);
+    std::feclearexcept (FE_ALL_EXCEPT);
+    V   cp = ParCall<T>::cpl (l1, l2);
+    int f2 = std::fetestexcept (WATCH);
+    std::feclearexcept (FE_ALL_EXCEPT);
+    T   dist = ParCall<T>::dl (l1, l2);
+    int f3   = std::fetestexcept (WATCH);
+    std::feclearexcept (FE_ALL_EXCEPT);
+    if (!ok) c.label (PF_CP_FALSE);
+    QG_MEAS ("parallel-flags/raised-when-not-asserted(0/1)", (!asserted && (f1 | f2 | f3)) ? 1 : 0);
+    if (asserted)
+    {
+        VP_REQUIRE (c, f1 == 0, "closestPoints/fp-exception-on-parallel-lines", tn << " closestPoints raised " << fe_names (f1) << "for " << (exact_parallel ? "exactly parallel lines" : "lines whose denominator 1-(d1.d2)^2 is exactly 0") << " (returned " << ok << "): a division by zero was performed");
+        VP_REQUIRE (c, f2 == 0, "line-closestPointTo-line/fp-exception-on-parallel-lines", tn << " closestPointTo(line) raised " << fe_names (f2) << "for " << (exact_parallel ? "exactly parallel lines" : "lines whose denominator 1-(d1.d2)^2 is exactly 0") << " (returned " << vs (cp) << "): a division by zero was performed");
+        VP_REQUIRE (c, f3 == 0, "line-distanceTo-line/fp-exception-on-parallel-lines", tn << " distanceTo(line) raised " << fe_names (f3) << "for " << (exact_parallel ? "exactly parallel lines" : "lines whose denominator 1-(d1.d2)^2 is exactly 0") << " (returned " << dist << "): a division by zero was performed");
+        VP_REQUIRE (c, fin3 (cp) && std::isfinite (dist) && (!ok || (fin3 (o1) && fin3 (o2))), "parallel-lines/nonfinite", tn << " closestPoints " << ok << " " << vs (o1) << " " << vs (o2) << ", closestPointTo(line) " << vs (cp) << ", distanceTo(line) " << dist);
+    }
+}
+#define C15_PF_LABELS "axis_parallel", "lattice_point_pairs_p,p+k*d", "direction_copied", "identical_lines", "angle_2^-j(j>=digits/2-3)", "antiparallel", "second_origin_scaled_by_2^4..2^40", "flags_asserted", "denominator_exactly_0", "exactly_parallel_denominator_nonzero", "not_asserted(nearly_parallel,denominator_nonzero)", "closestPoints_false"
+#define C15_PF_RULE "pairs of exactly parallel / antiparallel / identical lines (axis-parallel; both through lattice point pairs p, p + k d, k in 1,3,5,6,7,9..15; direction copied from a line through lattice or generic points, second origin anywhere or on the first line; the same line) and lines at an angle 2^-j, j = digits/2-3 .. digits+3; 1/4 with the second origin scaled by 2^4..2^20 (float) / 2^40 (double); floating-point status flags cleared before and read after closestPoints, closestPointTo(line), distanceTo(line), each called through a volatile function pointer; demanded: neither FE_DIVBYZERO nor FE_INVALID when the stored directions are exactly parallel or 1-(d1.d2)^2 is exactly 0 in T; non-trivial = asserted"
+VP_RANDOM (parallel_flags_f, 100000, 1000000, C15_PF_RULE) { parallel_flags_case<float> (c, "float"); }
+VP_LABELS (parallel_flags_f, C15_PF_LABELS)
+VP_REQUIRE_LABELS (parallel_flags_f, C15_PF_LABELS)
+VP_RANDOM (parallel_flags_d, 100000, 1000000, C15_PF_RULE) { parallel_flags_case<double> (c, "double"); }
+VP_LABELS (parallel_flags_d, C15_PF_LABELS)
+VP_REQUIRE_LABELS (parallel_flags_d, C15_PF_LABELS)
 
 VP_MAIN ("C15")
